@@ -87,6 +87,15 @@ handle types `FileDbMapDb…` are checked; the `RefCell::borrow…` plumbing of 
 `if let Some(m) = e { return Ok(m); }`, `match e { Some(m) => Ok(m), None => panic!(..) }`, `let _ = e;`;
 `FileDbMapDb<K>::open(self.path(), name, params)?` is the function parameter `opener`; the method sets of the two `impl`s,
 `FileDbInner::{open, path}`, `FileDb::{open, path}`, `FileDbMap::<KT>::open` pinned token-wise, REG_PINS).
+Property-preserving rewrites of the source do not fail and give the same terms (section "property-preserving rewrites"):
+the parameters of a translated function may be renamed (signatures are compared up to the parameter names, the body is renamed
+to the configured names: `sig_eq_renamed`, `rename_params`), so may the locals that the translation refers to (`locked`, `hash`,
+`pb`, `piece_mgr`, `std_file`, `file`, `buckets_size`, `err`, …: found by the shape of their statement) and the locals /
+parameters of the small functions that are pinned token-wise (`toks_eq_renamed`); a private (not `pub`) translated function may
+be renamed with all its call sites (`Aliases`, `io_find_renamed`: the one other function of the block with the configured
+signature that the callers call; the Lean name stays, the doc comment says `(renamed in the source: …)`); the prologue
+`let hash = HashValue::new(key_kt.hash_value());` may be inlined into its uses; `match o { Some(v) => a, None => b }` is
+`if let`, `u64::from(x)` is `x as u64`, `.clone()` of a `Copy` value and `Ok(call?)` are what they wrap.
 When the translation fails, the file of the failing stage and those of all later stages (order: Funcs.lean, FileOps.lean,
 Engine.lean, FlushOps.lean, ApiOps.lean, Registry.lean) are replaced by files that do not build.
 Python 3 standard library only.
@@ -811,6 +820,39 @@ def find_impl(src, header, where, generics=None):
     fail("%s: `impl %s`: unterminated block" % (where, header))
 
 
+def sig_param_names(sig):
+    """names of the parameters (not `self`) of a signature given as token texts `( & self , a : T , … ) -> R`"""
+    return [n for n, _t in sig_param_types(sig, None)]
+
+
+def sig_param_types(sig, names):
+    """[(name, type text)] of the parameters of a signature (token texts); `names`: the names to report instead (in order)"""
+    out, depth, i = [], 0, 0
+    if sig and sig[0] == "<":                              # the generic parameter list
+        while i < len(sig):
+            depth += (sig[i] == "<") - (sig[i] == ">") - 2 * (sig[i] == ">>")
+            i += 1
+            if depth == 0:
+                break
+    i0 = i
+    while i < len(sig):
+        v = sig[i]
+        depth += (v in ("(", "[", "<")) - (v in (")", "]", ">")) - 2 * (v == ">>")
+        if depth == 0 and i > i0:
+            break
+        if depth == 1 and is_ident(v) and i + 1 < len(sig) and sig[i + 1] == ":" and sig[i - 1] in ("(", ",", "mut"):
+            j, d2, ty = i + 2, 0, ""
+            while j < len(sig) and not (d2 == 0 and sig[j] in (",", ")")):
+                d2 += (sig[j] in ("(", "[", "<")) - (sig[j] in (")", "]", ">")) - 2 * (sig[j] == ">>")
+                ty += sig[j]
+                j += 1
+            out.append((v, ty))
+        i += 1
+    if names is not None and len(names) == len(out):
+        out = [(n, t) for n, (_o, t) in zip(names, out)]
+    return out
+
+
 def fn_signature(item):
     """the tokens between the function's name and its body:
     `( & self , other : & [ u8 ] ) -> std :: cmp :: Ordering` (compared token-wise)"""
@@ -838,6 +880,291 @@ def strip_comments(src):
     return src
 
 
+# ----------------------------------------------------------------------------- property-preserving rewrites
+# What the translation pins is the MEANING of the translated code.  A rewrite that keeps it — a local variable / parameter /
+# private function renamed consistently, a pure `let` inlined — must not fail; the helpers below compare "up to bound names"
+# and rename to the configured (canonical) names, so that the generated terms stay the ones of the unchanged source.
+def is_ident(v):
+    return re.match(r"^[A-Za-z_][A-Za-z0-9_]*$", v) is not None and v not in RS_KEYWORDS
+
+
+RS_KEYWORDS = ("self", "Self", "mut", "let", "fn", "if", "else", "match", "for", "in", "while", "loop", "return", "as", "pub",
+               "impl", "where", "move", "ref", "true", "false", "crate", "super", "dyn", "struct", "enum", "type", "use", "const",
+               "static", "trait", "break", "continue", "unsafe", "_")
+
+
+def ast_rename(n, ren):
+    """the AST with the variables renamed by `ren` (binders and references alike: a consistent renaming of identifiers;
+    field names, method names, segments of longer paths, types and string literals are left alone)"""
+    if isinstance(n, list):
+        return [ast_rename(x, ren) for x in n]
+    if not (isinstance(n, tuple) and n and isinstance(n[0], str)):
+        if isinstance(n, tuple):
+            return tuple(ast_rename(x, ren) for x in n)
+        return n
+    k = n[0]
+    if k == "path":
+        return ("path", [ren.get(n[1][0], n[1][0])]) if len(n[1]) == 1 else n
+    if k == "pvar":
+        return ("pvar", ren.get(n[1], n[1]))
+    if k == "pctor":
+        return ("pctor", n[1], ast_rename(n[2], ren))
+    if k == "call":
+        # `func(&mut b)`: a call of a local (a closure parameter)
+        return ("call", [ren.get(n[1][0], n[1][0])] if len(n[1]) == 1 else n[1], ast_rename(n[2], ren))
+    if k == "match":
+        return ("match", ast_rename(n[1], ren),
+                [(p, ren.get(b, b) if b is not None else None, ast_rename(body, ren)) for p, b, body in n[2]])
+    if k == "structlit":
+        return ("structlit", n[1], [[f, ast_rename(e, ren)] for f, e in n[2]])
+    if k in ("num", "str", "dassert", "panic", "panicx", "rawtail"):
+        return n
+    return (k,) + tuple(ast_rename(x, ren) if isinstance(x, (tuple, list)) else x for x in n[1:])
+
+
+def ast_names(n, out=None):
+    """all identifiers that occur as a variable (bound or referred to) or as the head of a one-segment path / call"""
+    if out is None:
+        out = set()
+    if isinstance(n, list) or (isinstance(n, tuple) and not (n and isinstance(n[0], str))):
+        for x in n:
+            ast_names(x, out)
+        return out
+    if not isinstance(n, tuple) or not n:
+        return out
+    k = n[0]
+    if k in ("path", "call") and len(n[1]) == 1:
+        out.add(n[1][0])
+    if k == "pvar":
+        out.add(n[1])
+    if k == "match":
+        for _p, b, _body in n[2]:
+            if b is not None:
+                out.add(b)
+    if k in ("num", "str", "dassert", "panic", "panicx", "rawtail"):
+        return out
+    for x in n[2:] if k in ("path", "call", "pctor") else n[1:]:
+        if isinstance(x, (tuple, list)):
+            ast_names(x, out)
+    return out
+
+
+def ast_subst(n, old, new):
+    """the AST with every sub-expression equal to `old` replaced by `new`"""
+    if n == old:
+        return new
+    if isinstance(n, list):
+        return [ast_subst(x, old, new) for x in n]
+    if isinstance(n, tuple):
+        if n and n[0] in ("num", "str", "path", "pvar"):
+            return n
+        return tuple(ast_subst(x, old, new) if isinstance(x, (tuple, list)) else x for x in n)
+    return n
+
+
+def ast_binders(n, out=None):
+    """the names that are bound somewhere below `n` (`let`, `for`, `if let` / `while let`, closure parameters, `match` binders)"""
+    if out is None:
+        out = set()
+    for x in io_walk(n):
+        if x[0] in ("let", "for", "iflet", "whilelet"):
+            out.update(pat_vars(x[1]))
+        elif x[0] == "closure":
+            for p_ in x[1]:
+                out.update(pat_vars(p_))
+        elif x[0] == "match":
+            out.update(b for _p, b, _body in x[2] if b not in (None, "()"))
+    return out
+
+
+def shadows_cleanly(body, a, c):
+    """is the local `c` bound only by `let` statements of the function body itself, the first of them statement i, and is
+    the parameter `a` not referred to after statement i (its right-hand side comes before the binding)?  Then calling the
+    parameter `c` too makes that `let` shadow it (`let piece_size = piece_size.as_value();`) and changes nothing."""
+    if body[0] != "block":
+        return False
+    tops = [i for i, st in enumerate(body[1]) if st[0] == "let" and c in pat_vars(st[1])]
+    inner = sum(1 for x in io_walk(body) if (x[0] in ("let", "for", "iflet", "whilelet") and c in pat_vars(x[1]))
+                or (x[0] == "closure" and any(c in pat_vars(p_) for p_ in x[1]))
+                or (x[0] == "match" and any(b == c for _p, b, _b in x[2])))
+    if not tops or inner != len(tops):
+        return False
+    i = tops[0]
+    later = list(body[1][i + 1:]) + ([body[2]] if body[2] is not None else [])
+    if io_mentions_var(later, a) or a in pat_vars(body[1][i][1]):
+        return False
+    return not io_mentions_var(list(body[1][:i]) + [body[1][i][3]], c)
+
+
+def rename_params(body, actual, canonical, where, extra_names=()):
+    """`body` with the parameters renamed from the names the source gives them (`actual`) to the configured ones
+    (`canonical`): the same function (a consistent renaming of bound names), and the generated term is the one of the
+    unchanged source.  A local of the body that has a configured name (`let piece_size = size.as_value();` with the parameter
+    `size`, configured `piece_size`) is renamed out of the way (a fresh name with a fresh Lean name); fails when a configured
+    name stands for something that is not a local of the body (the renaming would capture it)."""
+    ren = dict((a, c) for a, c in zip(actual, canonical) if a != c)
+    if not ren:
+        return body
+    names = ast_names(body) | set(actual) | set(extra_names)
+    bound = ast_binders(body)
+    heads = set(x[1][0] for x in io_walk(body) if x[0] == "call" and len(x[1]) == 1)
+    for a, c in sorted(ren.items()):
+        if c in names and c not in ren:
+            if c in bound and c not in heads and c not in extra_names and shadows_cleanly(body, a, c):
+                continue                           # `let c = … a …;` and `a` is dead from there on: `c` shadows the parameter
+            if c not in bound or c in heads or c in extra_names:
+                fail("%s: the parameter `%s` (configured name `%s`) cannot be renamed: `%s` stands for something else in the function"
+                     % (where, a, c, c))
+            fresh = c + "_x"
+            while fresh in names or lean_ident(fresh) in set(lean_ident(x) for x in names | set(canonical)):
+                fresh += "x"
+            ren[c] = fresh
+            names.add(fresh)
+    return ast_rename(body, ren)
+
+
+def sig_eq_renamed(got, want):
+    """signatures as token texts (`( & mut self , a : T , … ) -> R`): equal up to the NAMES of the parameters?
+    -> [(configured name, name in the source)] in order, or None.  The names must be distinct identifiers on both sides."""
+    if len(got) != len(want):
+        return None
+    pairs, depth, done = [], 0, False
+    for i, (g, w) in enumerate(zip(got, want)):
+        if g == "(" and w == "(":
+            depth += 1
+        elif g == ")" and w == ")":
+            depth -= 1
+            done = done or depth == 0                      # (the parameter list is the first group; a `where` clause may have others)
+        name_pos = (depth == 1 and not done and i + 1 < len(want) and want[i + 1] == ":" and got[i + 1] == ":" and i > 0
+                    and want[i - 1] in ("(", ",", "mut") and got[i - 1] == want[i - 1] and is_ident(w) and is_ident(g))
+        if name_pos:
+            pairs.append((w, g))
+        elif g != w:
+            return None
+    if len(set(p[0] for p in pairs)) != len(pairs) or len(set(p[1] for p in pairs)) != len(pairs):
+        return None
+    return pairs
+
+
+def toks_locals(ts):
+    """names bound inside an item given as token texts: the parameters of a `fn` (`name :` at depth 1 of its parameter
+    list), `let [mut] x` / `let (a, b)`, `for x in`, closure parameters `|a, b|`, the binder of a constructor pattern `Some(x)` /
+    `Err(x)` / `Enum::Variant(x)` (followed by `=>` / `=`)"""
+    out = set()
+    n = len(ts)
+    for i, v in enumerate(ts):
+        if v == "fn":
+            j = i + 2
+            if j < n and ts[j] == "<":
+                depth = 0
+                while j < n:
+                    depth += (ts[j] == "<") - (ts[j] == ">") - 2 * (ts[j] == ">>")
+                    j += 1
+                    if depth == 0:
+                        break
+            if j < n and ts[j] == "(":
+                depth = 0
+                while j < n:
+                    depth += (ts[j] in ("(", "[", "<")) - (ts[j] in (")", "]", ">")) - 2 * (ts[j] == ">>")
+                    if depth == 0:
+                        break
+                    if depth == 1 and is_ident(ts[j]) and j + 1 < n and ts[j + 1] == ":" and ts[j - 1] in ("(", ",", "mut"):
+                        out.add(ts[j])
+                    j += 1
+        elif v in ("let", "for"):
+            j = i + 1
+            while j < n and ts[j] not in ("=", ":", "in", ";"):
+                if is_ident(ts[j]) and not (j + 1 < n and ts[j + 1] == "(") and ts[j - 1] not in (".", "::"):
+                    out.add(ts[j])
+                j += 1
+        elif v == "|" and (i == 0 or ts[i - 1] in ("(", ",", "=", "{", ";", "return", "move")):
+            j = i + 1
+            while j < n and ts[j] != "|":
+                if is_ident(ts[j]):
+                    out.add(ts[j])
+                j += 1
+        elif v[:1].isupper() and is_ident(v) and i + 4 < n and ts[i + 1] == "(" and is_ident(ts[i + 2]) and ts[i + 3] == ")" \
+                and ts[i + 4] in ("=>", "="):
+            out.add(ts[i + 2])                             # `Some(x) =>`, `FileBufSizeParam::Size(val) =>`, `if let Some(x) =`
+    return out
+
+
+def toks_eq_renamed(got, want):
+    """token texts of an item: equal up to a bijective renaming of the names bound inside it (toks_locals)?
+    -> {name in `want`: name in `got`} or None.  A position counts as a use of a local when the token is a bound name of
+    its side and does not follow `.` / `::` / `'`; the two sides must agree on which positions these are; a new name must
+    not be one that the configured text uses for something else."""
+    if len(got) != len(want):
+        return None
+    if got == want:
+        return {}
+    lw, lg = toks_locals(want), toks_locals(got)
+    fwd, bwd, other = {}, {}, set()
+    for i, (g, w) in enumerate(zip(got, want)):
+        wl = w in lw and (i == 0 or want[i - 1] not in (".", "::", "'"))
+        gl = g in lg and (i == 0 or got[i - 1] not in (".", "::", "'"))
+        if wl != gl:
+            return None
+        if wl:
+            if fwd.setdefault(w, g) != g or bwd.setdefault(g, w) != w:
+                return None
+        else:
+            if g != w:
+                return None
+            if i == 0 or want[i - 1] not in (".", "::", "'"):
+                other.add(w)                       # (a field / method name cannot be captured by a local)
+    for w, g in fwd.items():
+        if g != w and g in other:
+            return None
+    return fwd
+
+
+def fn_visibility(toks, s):
+    """visibility of the item whose tokens start at `s`: "pub" (public), "restricted" (`pub(crate)` / `pub(super)` / …),
+    "private"; and the index of the token after it"""
+    if toks[s][1] != "pub":
+        return "private", s
+    if toks[s + 1][1] == "(":
+        j = s + 1
+        while toks[j][1] != ")":
+            j += 1
+        return "restricted", j + 1
+    return "pub", s + 1
+
+
+class Aliases:
+    """private functions that the source has renamed: (owner, configured name) <-> the name in the source.
+    A configured function that is not found under its name is looked for among the functions of the same `impl` block
+    (free functions: of the same file) that are not configured themselves, are not `pub`, and have the configured signature
+    up to the names of the parameters; there must be exactly one.  Calls are resolved by the name in the SOURCE
+    (`src_to_cfg`): a call of the new name is the configured function, a call of the old name is unknown."""
+
+    def __init__(self):
+        self.new_of = {}              # (owner, configured name) -> name in the source
+        self.old_of = {}              # (owner, name in the source) -> configured name
+        self.used = set()             # (owner, configured name) of the aliases a translated caller went through
+        self.where = {}               # (owner, configured name) -> (where, the message of the failed lookup)
+
+    def add(self, owner, cfg, src):
+        self.new_of[(owner, cfg)] = src
+        self.old_of[(owner, src)] = cfg
+
+    def src_to_cfg(self, owner, name):
+        """the configured name of the function that the source calls `name`"""
+        if (owner, name) in self.old_of:
+            self.used.add((owner, self.old_of[(owner, name)]))
+            return self.old_of[(owner, name)]
+        if (owner, name) in self.new_of:
+            return "<renamed to %s>" % self.new_of[(owner, name)]     # the old name: it no longer names this function
+        return name
+
+    def note(self, owner, cfg):
+        return " (renamed in the source: %s)" % self.new_of[(owner, cfg)] if (owner, cfg) in self.new_of else ""
+
+
+ALIASES = Aliases()
+
+
 # ----------------------------------------------------------------------------- emission
 WIDTH = {"u8": 8, "u16": 16, "u32": 32, "u64": 64, "usize": 64}
 BYTES = "[u8]"                                   # type tag of byte sequences (`&[u8]`, `Vec<u8>`): `List Nat`
@@ -863,11 +1190,15 @@ class Emit:
         self.static_len = {}          # local array variable -> its fixed length (`let mut a = [0u8; 8]`)
         self.len_alias = {}           # immutable local `n` bound by `let n = S.len()` -> Lean text of S
         self.facts = []               # ("lt"|"ge", var, K) known from the enclosing `if var < K` branches
+        self.drop_alias = {}          # local bound by a `let` that is configured to be dropped -> text of its right-hand side
+        self.rel = None               # file of the function (calls of a renamed private function: ALIASES)
 
     # -- canonical text of an expression for substitution lookup
     def text(self, e):
         k = e[0]
         if k == "path":
+            if len(e[1]) == 1 and e[1][0] in self.drop_alias:
+                return self.drop_alias[e[1][0]]            # `let key = self.key.as_bytes();` (dropped): `key` is that text
             return "::".join(e[1])
         if k == "field":
             return self.text(e[1]) + "." + e[2]
@@ -904,6 +1235,8 @@ class Emit:
             name = e[1][-1]
             if name == "new" and len(e[2]) == 1:
                 return self.ty(e[2][0])
+            if name == "from" and len(e[1]) == 2 and e[1][0] in WIDTH and len(e[2]) == 1:
+                return e[1][0]
             if "::".join(e[1]) == "vu64::encoded_len":
                 return "u8"
             if "::".join(e[1]) == "vu64::encode":
@@ -1034,6 +1367,9 @@ class Emit:
             name = "::".join(e[1])
             if e[1][-1] == "new" and len(e[2]) == 1:
                 return self.ex(e[2][0])                       # newtype constructor erased
+            if len(e[1]) == 2 and e[1][1] == "from" and e[1][0] in WIDTH and len(e[2]) == 1 and self.ty(e[2][0]) in WIDTH \
+                    and WIDTH[self.ty(e[2][0])] <= WIDTH[e[1][0]]:
+                return self.ex(("cast", e[2][0], e[1][0]))       # `u64::from(x)` (lossless) is `x as u64`
             if name == "vu64::encoded_len":
                 return "(Abyss.Vu64.encodedLen %s)" % self.ex(e[2][0])
             if name == "u64::from_be_bytes" and len(e[2]) == 1:
@@ -1058,9 +1394,9 @@ class Emit:
                     fail("%s: %s(..) of something that is not known to be a byte sequence: %s"
                          % (self.where, name, self.text(e[2][0])))
                 return self.ex(e[2][0])
-            if e[1][-1] in self.pure_fns and len(e[1]) == 1:
-                return "(%s %s)" % (self.pure_fns[e[1][-1]], " ".join(self.atom(a) for a in e[2]))
-            if name in self.partial_fns or e[1][-1] in self.partial_fns:
+            if len(e[1]) == 1 and ALIASES.src_to_cfg(self.rel, e[1][-1]) in self.pure_fns:
+                return "(%s %s)" % (self.pure_fns[ALIASES.src_to_cfg(self.rel, e[1][-1])], " ".join(self.atom(a) for a in e[2]))
+            if name in self.partial_fns or ALIASES.src_to_cfg(self.rel, e[1][-1]) in self.partial_fns:
                 fail("%s: call of partial function %s outside tail position" % (self.where, name))
             if name == "std::mem::size_of_val":
                 fail("%s: size_of_val unsupported" % self.where)
@@ -1180,9 +1516,9 @@ class Emit:
             return "(if %s then %s else %s)" % (self.cond(e[1]), self.tailx(e[2], wrap), self.tailx(e[3], wrap))
         if e[0] == "match":
             return self.match(e, wrap)
-        if e[0] == "call" and (e[1][-1] in self.partial_fns):
+        if e[0] == "call" and (ALIASES.src_to_cfg(self.rel, e[1][-1]) in self.partial_fns):
             self.partial = True
-            return "(%s %s)" % (self.partial_fns[e[1][-1]], " ".join(self.atom(a) for a in e[2]))
+            return "(%s %s)" % (self.partial_fns[ALIASES.src_to_cfg(self.rel, e[1][-1])], " ".join(self.atom(a) for a in e[2]))
         d = self.decode_unwrap(e)
         if d is not None:
             # `vu64::decode(X).unwrap()`: panics (none) when X is not a vu64
@@ -1213,6 +1549,7 @@ class Emit:
         """a (re)declared or assigned variable: what was known about its former value is dropped"""
         self.static_len.pop(v, None)
         self.len_alias.pop(v, None)
+        self.drop_alias.pop(v, None)
         self.facts = [f for f in self.facts if f[1] != v]
         for n in [n for n, sx in self.len_alias.items() if mentions(sx, lean_ident(v))]:
             del self.len_alias[n]
@@ -1249,6 +1586,8 @@ class Emit:
             _, pat, ty, e, _mut = st
             txt = self.text(e)
             if txt in self.subst and self.subst[txt][0] is None:
+                if pat[0] == "pvar" and not _mut:
+                    self.drop_alias[pat[1]] = txt              # what the local stands for, whatever it is called
                 return self.seq(rest, tail, wrap)              # configured to be dropped
             d = self.decode_unwrap(e)
             if d is not None:
@@ -1365,6 +1704,8 @@ class Emit:
             known = self.known()
             for v in pat_vars(pat):
                 self.forget(v)
+            if pat[0] == "pvar" and self.elem_ty(it) is not None:
+                self.vt[pat[1]] = self.elem_ty(it)  # `for b in bytes`: a `u8`; `for c in bytes.chunks(n)`: a byte sequence
             for v in vs:
                 if v not in self.state_vars:
                     self.forget(v)                 # the body sees the result of any number of rounds
@@ -1399,6 +1740,16 @@ class Emit:
         if k == "while":
             fail(self.where + ": `while` loops are outside the supported subset of pure functions")
         fail("%s: unsupported statement %s" % (self.where, k))
+
+    def elem_ty(self, it):
+        """type of the elements a `for` iterates over, where it is evident"""
+        while it[0] == "mcall" and it[2] == "iter" and not it[3]:
+            it = it[1]
+        if it[0] == "mcall" and it[2] == "chunks" and len(it[3]) == 1 and self.ty(it[1]) == BYTES:
+            return BYTES
+        if self.ty(it) == BYTES:
+            return "u8"
+        return None
 
     def iter(self, it):
         if it[0] == "range":
@@ -1483,11 +1834,17 @@ P.expr = _expr_with_range
 def translate_fn(repo, feats, relpath, rust_name, lean_name, params, subst, consts, partial_fns,
                  self_arrays=None, var_types=None, ret_tuple=None, pick_let=None, state_vars=None,
                  pure_fns=None, default_int=None, result=None, impl=None, expect_sig=None,
-                 force_option=False, newtypes=None, impl_generics=None):
+                 force_option=False, newtypes=None, impl_generics=None, pnames=None, alias_sig=None, rename=None,
+                 picked=None):
     """impl: look the function up inside the block `impl <impl> { … }` only.
     expect_sig: the function's signature (text between its name and its body) must be this,
-    token for token — the parameter names and types of `params`/`var_types` are configuration,
-    this ties them to the source.
+    token for token up to the NAMES of the parameters — the parameter names and types of `params`/`var_types` are
+    configuration, this ties them to the source; the body is renamed to the configured names.
+    pnames: (no `expect_sig`) the configured names of the parameters, in order: the body is renamed to them.
+    alias_sig: signature of a private free function; when no `fn <rust_name>` is found, the one private function of the file
+    with this signature (up to parameter names) is taken (ALIASES; the callers must call it under that name).
+    pick_let: a variable name, or ("rhs", token texts): the statement `let <v> = <these tokens> …`, whatever `v` is
+    (`picked["var"]` = v).  rename: {local of the source: configured name}, applied to the parsed statement / body.
     force_option: the Lean function returns `Option` even when no panic path was found.
     newtypes: names of tuple-struct newtypes over `Vec<u8>` whose constructor is erased."""
     where = "%s::%s" % (relpath, rust_name) if impl is None else "%s::<impl %s>::%s" % (relpath, impl, rust_name)
@@ -1497,18 +1854,31 @@ def translate_fn(repo, feats, relpath, rust_name, lean_name, params, subst, cons
         n = len(re.findall(r"\bfn\s+%s\b" % re.escape(rust_name), src))
         if n != 1:
             fail("%s: %d definitions of fn %s in the impl block" % (where, n, rust_name))
-    item = find_item(src, "fn", rust_name, where)
+    src_name = rust_name
+    if impl is None and alias_sig is not None and not re.search(r"\bfn\s+%s\s*(<[^()]*>)?\s*\(" % re.escape(rust_name), src):
+        # a private free function that the source has renamed
+        block = io_find_free_fns(repo, feats, relpath)
+        io_find_renamed(block, relpath, rust_name, io_strip_tc([v for _k, v in tokenize(alias_sig)]), set(), where,
+                        "%s: fn %s not found" % (where, rust_name))
+        src_name = ALIASES.new_of[(relpath, rust_name)]
+    item = find_item(src, "fn", src_name, where)
+    canon = pnames
     if expect_sig is not None:
         got, want = fn_signature(item), [v for _k, v in tokenize(expect_sig)]
-        if got != want:
+        pairs = sig_eq_renamed(got, want)
+        if pairs is None:
             fail("%s: signature is `%s`, the translation is configured for `%s`" % (where, " ".join(got), " ".join(want)))
+        canon = [w for w, _g in pairs]
     toks = tokenize(item)
     if pick_let:
         # translate only the first `let <pick_let> = <expr>;` of the function whose cfg
         # attributes hold; the rest of the function is not parsed.
         body = None
+        by_rhs = [v for v in pick_let[1]] if isinstance(pick_let, tuple) else None
         for i in range(len(toks) - 2):
-            if toks[i][1] == "let" and toks[i + 1][1] == pick_let and toks[i + 2][1] == "=":
+            if toks[i][1] == "let" and toks[i + 2][1] == "=" and (
+                    (by_rhs is None and toks[i + 1][1] == pick_let) or
+                    (by_rhs is not None and toks[i + 1][0] == "id" and [t_[1] for t_ in toks[i + 3:i + 3 + len(by_rhs)]] == by_rhs)):
                 # attributes directly in front of the `let`
                 j = i
                 ok = True
@@ -1531,9 +1901,11 @@ def translate_fn(repo, feats, relpath, rust_name, lean_name, params, subst, cons
                     continue
                 st = P(toks[i:], feats, where).stmt()
                 body = ("block", [], st[3])
+                if picked is not None:
+                    picked["var"] = toks[i + 1][1]
                 break
         if body is None:
-            fail("%s: statement `let %s = …` not found" % (where, pick_let))
+            fail("%s: statement `let %s = …` not found" % (where, pick_let if by_rhs is None else "<v> = " + " ".join(by_rhs)))
     else:
         # skip signature up to the body '{'
         p = P(toks, feats, where)
@@ -1552,9 +1924,21 @@ def translate_fn(repo, feats, relpath, rust_name, lean_name, params, subst, cons
                 fail(where + ": body not found")
             p.next()
         body = p.block()
+        actual = sig_param_names(fn_signature(item))
+        if canon is not None and len(canon) == len(actual):
+            # the parameters under their configured names (a consistent renaming of bound names)
+            body = rename_params(body, actual, canon, where)
+    if rename:
+        body = rename_params(body, list(rename), [rename[k_] for k_ in rename], where)
+    var_types = dict(var_types or {})
+    if not pick_let:
+        for pn_, pt_ in sig_param_types(fn_signature(item), canon):
+            if pt_ in ("&[u8]", "Vec<u8>", "&Vec<u8>") and pn_ not in var_types and pn_ not in [x_[0] for x_ in params]:
+                var_types[pn_] = BYTES                  # a byte sequence, by the signature
     em = Emit(where, subst, consts, partial_fns, var_types or {}, self_arrays or {})
     em2 = Emit(where, subst, consts, partial_fns, var_types or {}, self_arrays or {})
     for x in (em, em2):
+        x.rel = relpath
         x.state_vars = dict(state_vars or {})
         x.pure_fns = dict(pure_fns or {})
         x.default_int = default_int
@@ -1586,13 +1970,15 @@ def translate_touch(repo, feats, header, rust, param, ptype):
     toks = cands[0][0]
     ib = [v for _k, v in toks].index("{")
     want = [v for _k, v in tokenize("fn %s(&mut self, %s: %s)" % (rust, param, ptype))]
-    if [v for _k, v in toks[:ib]] != want:
+    pairs = sig_eq_renamed([v for _k, v in toks[2:ib]], want[2:])
+    if pairs is None or [v for _k, v in toks[:2]] != want[:2]:
         fail("%s: signature is `%s`, the translation is configured for `%s`" % (where, " ".join(v for _k, v in toks[:ib]), " ".join(want)))
     pp = P(toks[ib:], feats, where)
     pp.keep_try = True
     body = pp.block()
     if pp.i != len(toks) - ib or pp.dropped or pp.kept:
         fail("%s: tokens after the body / `#[cfg]` statements" % where)
+    body = rename_params(body, [g for _w, g in pairs], [w for w, _g in pairs], where)      # the parameter under its configured name
     m = body[2] if not body[1] else (body[1][0][1] if (len(body[1]) == 1 and body[1][0][0] == "expr" and body[2] is None) else None)
     vec = ("field", ("path", ["self"]), "0")
     if not (m is not None and m[0] == "match" and m[1][0] == "mcall" and m[1][1] == vec and m[1][2] == "binary_search_by_key"
@@ -1772,6 +2158,8 @@ IO_MUT_METHODS = ("push", "touch_size", "touch_length")
 # the trait objects of the two record files (FileOps.lean), by the file of the engine
 IO_PIECEA_INST = {"key": ("keyPieceA", "liftKey"), "val": ("valPieceA", "liftVal")}
 IO_RESERVED_ENGINE = ("kc", "vc", "bucketsSize", "cmp")
+IO_COLD = ["_cold"]                   # the name of the empty `#[cold]` function of inner/mod.rs (found by its shape, io_pin_engine)
+IO_PIECE_ITERS = {"key": "key_piece_offset_iter", "val": "value_piece_offset_iter"}   # … of the two wrappers (io_pin_piece_iters)
 # context parameters of a translated function (in this order, before its own parameters):
 # the piece manager of the file (`c`; of the key / value file in the engine: `kc`, `vc`), the field
 # `buckets_size` of the `VarFileHtxCache`, the comparison `KT::cmp_u8` of the key type
@@ -2055,6 +2443,18 @@ def io_walk(node):
                 yield y
 
 
+def io_option_match(e):
+    """`match o { Some(v) => a, None => b }` (either order; a plain binder) is `if let Some(v) = o { a } else { b }`: the
+    `iflet` node, or None"""
+    if e[0] != "match" or len(e[2]) != 2:
+        return None
+    arms = dict((tuple(p), (b, body)) for p, b, body in e[2])
+    if sorted(arms) != [("None",), ("Some",)] or arms[("None",)][0] is not None or arms[("Some",)][0] in (None, "()"):
+        return None
+    blk = [x if x[0] == "block" else ("block", [], x) for x in (arms[("Some",)][1], arms[("None",)][1])]
+    return ("iflet", ("pctor", "Some", [("pvar", arms[("Some",)][0])]), e[1], blk[0], blk[1])
+
+
 def io_contains_return(node):
     return any(n[0] in ("return", "returnx") for n in io_walk(node))
 
@@ -2199,6 +2599,79 @@ def split_items(toks, lo, hi):
     return out
 
 
+class FnDef(tuple):
+    """(tokens from `fn` on, description of the block) of a function found in the source, with its visibility `vis`
+    ("pub" / "restricted" / "private")"""
+    def __new__(cls, toks, desc, vis):
+        t = tuple.__new__(cls, (toks, desc))
+        t.vis = vis
+        return t
+
+
+def io_sig_toks(toks):
+    """token texts of the signature of a function (tokens from `fn` on): from `(` to the body / the `;` of a declaration,
+    without the generic parameter list and without trailing commas"""
+    tv = [v for _k, v in toks]
+    i = 2
+    if tv[i] == "<":
+        depth = 0
+        while True:
+            depth += (tv[i] == "<") - (tv[i] == ">") - 2 * (tv[i] == ">>")
+            i += 1
+            if depth == 0:
+                break
+    j, depth = i, 0
+    while j < len(tv):
+        if depth == 0 and tv[j] in ("{", ";"):
+            break
+        depth += (tv[j] in ("(", "[")) - (tv[j] in (")", "]"))
+        j += 1
+    return io_strip_tc(tv[i:j])
+
+
+def io_find_renamed(block, owner, rust, want_sig, configured, where, nodef_msg):
+    """a configured function `rust` is not found in its block (`block`: name -> [FnDef]): the one function of the block
+    that is not configured itself, is not `pub` (a public name is API, pinned by the test-suite), and has the configured
+    signature `want_sig` (token texts) up to the names of its parameters.  None or several: fails with `nodef_msg`, as
+    before.  The alias is recorded (ALIASES); that a translated caller calls it is checked at the end (`check_aliases`)."""
+    hits = []
+    for name, cands in sorted(block.items()):
+        if name in configured or len(cands) != 1 or getattr(cands[0], "vis", "pub") == "pub":
+            continue
+        if sig_eq_renamed(io_sig_toks(cands[0][0]), want_sig) is not None:
+            hits.append(name)
+    if len(hits) > 1:
+        # several: the one that the source calls somewhere (the others are dead code, `_read_hash_buckets_size`)
+        called = [h for h in hits if src_calls(h)]
+        hits = called if len(called) == 1 else hits
+    if len(hits) != 1:
+        fail(nodef_msg + ("" if not hits else " (renamed? %d private functions of the block have its signature: `%s`)"
+                          % (len(hits), "`, `".join(hits))))
+    ALIASES.add(owner, rust, hits[0])
+    ALIASES.where[(owner, rust)] = (where, nodef_msg)
+    return block[hits[0]]
+
+
+SRC_TOKENS = {}                       # the token texts of the `.rs` files under `<repo>/src` (filled by main)
+
+
+def src_calls(name):
+    """is the function `name` called somewhere in the source (`name(` / `.name(` / `::name(`, not its definition `fn name`)?"""
+    for tv in SRC_TOKENS.values():
+        for i in range(1, len(tv) - 1):
+            if tv[i] == name and tv[i + 1] == "(" and tv[i - 1] != "fn":
+                return True
+    return False
+
+
+def check_aliases():
+    """every function that was found under another name must be what a translated caller calls under that name"""
+    for key, new in sorted(ALIASES.new_of.items()):
+        if key not in ALIASES.used:
+            where, msg = ALIASES.where[key]
+            fail(msg + " (a private function `%s` has its signature, but no translated function calls it)" % new)
+
+
 def io_find_methods(repo, feats, relpath, header):
     """the methods of the inherent blocks `<header> { … }` (header = `impl VarFile`,
     `impl<KT: DbMapKeyType> KeyPiece<KT>`, matched token-wise) of a file whose `#[cfg]`
@@ -2218,20 +2691,14 @@ def io_find_methods(repo, feats, relpath, header):
             continue
         blockdesc = "`%s`" % header + ((" (" + " ".join("`%s`" % c for c in pa.last_cfg) + ")") if pa.last_cfg else "")
         for a2, s2, e2 in split_items(toks, s + n + 1, e - 1):
-            j = s2
-            if toks[j][1] == "pub":
-                j += 1
-                if toks[j][1] == "(":
-                    while toks[j][1] != ")":
-                        j += 1
-                    j += 1
+            vis, j = fn_visibility(toks, s2)
             if toks[j][1] != "fn":
                 continue
             name = toks[j + 1][1]
             pm = P(toks[a2:s2], feats, where + "::" + name)
             if not pm.attrs():
                 continue
-            found.setdefault(name, []).append((toks[j:e2], blockdesc))
+            found.setdefault(name, []).append(FnDef(toks[j:e2], blockdesc, vis))
     return found
 
 
@@ -2241,21 +2708,15 @@ def io_find_free_fns(repo, feats, relpath):
     toks = tokenize(strip_comments(open(os.path.join(repo, relpath)).read()))
     found = {}
     for a, s_, e in split_items(toks, 0, len(toks)):
-        j = s_
-        if toks[j][1] == "pub":
-            j += 1
-            if toks[j][1] == "(":
-                while toks[j][1] != ")":
-                    j += 1
-                j += 1
+        vis, j = fn_visibility(toks, s_)
         if toks[j][1] != "fn":
             continue
         name = toks[j + 1][1]
         pa = P(toks[a:s_], feats, "%s::%s" % (relpath, name))
         if not pa.attrs():
             continue
-        found.setdefault(name, []).append((toks[j:e], "(free function)" + (
-            (" (" + " ".join("`%s`" % c for c in pa.last_cfg) + ")") if pa.last_cfg else "")))
+        found.setdefault(name, []).append(FnDef(toks[j:e], "(free function)" + (
+            (" (" + " ".join("`%s`" % c for c in pa.last_cfg) + ")") if pa.last_cfg else ""), vis))
     return found
 
 
@@ -2677,7 +3138,7 @@ class EmitIO:
         (do-items that run it and re-bind the state fields, Lean text of its value, class) or None"""
         if not (self.f.state and e[0] == "mcall" and e[1] == ("path", ["self"])):
             return None
-        g = self.table.get((self.f.state, e[2]))
+        g = self.table.get((self.f.state, ALIASES.src_to_cfg(self.f.state, e[2])))
         if g is None or not g.state:
             return None
         if e[3] or g.needs or [p_ for p_ in g.params if not getattr(p_, "state", False)]:
@@ -2803,16 +3264,16 @@ class EmitIO:
                 return ("seek", None)
             if name == "read_exact":
                 return ("readexact", None)
-            if ("VarFile", name) in self.table:
-                return ("fn", self.table[("VarFile", name)])
+            if ("VarFile", ALIASES.src_to_cfg("VarFile", name)) in self.table:
+                return ("fn", self.table[("VarFile", ALIASES.src_to_cfg("VarFile", name))])
             return ("unknown-vf", None)
         if recv[0] == "field" and recv[2] == "buf_file" and self.text(recv[1]) in self.vf_texts:
             if name in IO_BUF_PRIMS:
                 return ("prim", IO_BUF_PRIMS[name])
             return None
         if rt == "self" and self.f.owner in ("VarFileValueCache", "VarFileKeyCache"):
-            if (self.f.owner, name) in self.table:
-                return ("fn", self.table[(self.f.owner, name)])
+            if (self.f.owner, ALIASES.src_to_cfg(self.f.owner, name)) in self.table:
+                return ("fn", self.table[(self.f.owner, ALIASES.src_to_cfg(self.f.owner, name))])
             return ("unknown-self", None)
         if self.f.engine:
             # the wrapper layers around the three files, the key file held open, the engine itself
@@ -2825,8 +3286,8 @@ class EmitIO:
         if recv[0] == "path" and len(recv[1]) == 1 and isinstance(self.vt.get(recv[1][0]), tuple) \
                 and self.vt[recv[1][0]][0] == "struct":
             sn = self.vt[recv[1][0]][1]
-            if (sn, name) in self.table:
-                return ("fn", self.table[(sn, name)])
+            if (sn, ALIASES.src_to_cfg(sn, name)) in self.table:
+                return ("fn", self.table[(sn, ALIASES.src_to_cfg(sn, name))])
             if name in IO_STRUCTS[sn]["pure"]:
                 return ("pure", sn)
         return None
@@ -2899,6 +3360,12 @@ class EmitIO:
                     # `u32 + u32` as the argument of `new(val: u32)`: computed in `u32`, which wraps in a release build
                     t = "(%s %% 2^%d)" % (t, wd)
                 return t, cls                                    # newtype constructor erased
+            if len(p) == 2 and p[1] == "from" and p[0] in WIDTH and len(e[2]) == 1:
+                # `u64::from(x)` (lossless, by the type checker) is `x as u64`; of a newtype it is `.into()`
+                t, ty = self.px(e[2][0])
+                if ty in NUMERIC and ty != "int":
+                    return t, "int"
+                return self.px(("cast", e[2][0], p[0]))
             if p == ["vu64", "decoded_len"] and len(e[2]) == 1:
                 t, ty = self.px(e[2][0])
                 if ty != "int":
@@ -2973,6 +3440,9 @@ class EmitIO:
                 if ty not in ("Offset", "Size", "Length"):
                     fail("%s: .is_zero() on a value of class %r" % (w, ty))
                 return "(%s == 0)" % t, "bool"
+            if name == "clone" and not args and self.var_of(recv) is not None and (
+                    self.vt.get(self.var_of(recv)) in NUMERIC or self.vt.get(self.var_of(recv)) == "bool"):
+                return self.px(recv)                             # `.clone()` of a `Copy` value (an integer / newtype / bool)
             if name in IO_BYTES_IDENTITY and not args:
                 t, ty = self.px(recv)
                 if ty != "bytes":
@@ -3180,7 +3650,7 @@ class EmitIO:
     def free_fn(self, e):
         """`f(..)` with `f` a translated free function of the file of this function: its IoFn"""
         if e[0] == "call" and len(e[1]) == 1 and self.f.rel in IO_FREE_OWNER:
-            return self.table.get((IO_FREE_OWNER[self.f.rel], e[1][0]))
+            return self.table.get((IO_FREE_OWNER[self.f.rel], ALIASES.src_to_cfg(IO_FREE_OWNER[self.f.rel], e[1][0])))
         return None
 
     def handle_value(self, e):
@@ -3273,6 +3743,8 @@ class EmitIO:
         if k == "call" and self.free_fn(e) is not None:
             t, ty = self.call_fn(self.free_fn(e), None, e[2], e[1][0])
             return [t], ty
+        if k == "call" and e[1] == ["Ok"] and len(e[2]) == 1 and e[2][0][0] == "try" and self.is_monadic(e[2][0][1]):
+            return self.mex(e[2][0][1])                          # `Ok(call?)` is `call` (the error type is the same `io::Error`)
         if k == "call" and e[1] == ["Ok"] and len(e[2]) == 1 and self.handle_value(e[2][0]) is not None:
             t, ty = self.handle_value(e[2][0])
             return ["pure " + t], ty
@@ -3379,6 +3851,8 @@ class EmitIO:
 
     def mtail(self, e, ctx):
         """a `Result`-typed expression in tail position of the function (the last item of a do block)"""
+        if io_option_match(e) is not None:
+            e = io_option_match(e)
         if e[0] == "if":
             if e[3] is None:
                 fail(self.where + ": `if` without `else` as a value")
@@ -3516,14 +3990,14 @@ class EmitIO:
         (p1, b1, body1), (p2, b2, body2) = e[2]
         if not (p1 == ["Ok"] and b1 == "()" and body1 == ("tuple", [])):
             return False
-        if not (p2 == ["Err"] and b2 == "err" and body2[0] == "block" and body2[2] is None and len(body2[1]) == 2):
+        if not (p2 == ["Err"] and b2 not in (None, "()", "_") and body2[0] == "block" and body2[2] is None and len(body2[1]) == 2):
             return False
         s1, s2 = body2[1]
         if not (s1[0] == "let" and s1[1] == ("pvar", "_") and s1[2] is None and s1[3][0] == "mcall"
                 and self.text(s1[3][1]) in self.vf_texts and s1[3][2] == "set_file_length" and len(s1[3][3]) == 1
                 and s1[3][3][0][0] == "path"):
             return False
-        return s2 == ("return", ("call", ["Err"], [("path", ["err"])]))
+        return s2 == ("return", ("call", ["Err"], [("path", [b2])])) and not io_mentions_var(s1, b2)
 
     # ---- statements
     def seq(self, stmts, tail, ctx):
@@ -3606,11 +4080,11 @@ class EmitIO:
                 # `let buckets_size = match params.buckets_size { … };` of `HtxFile::open_with_params`: this statement is what the
                 # pure function `bucketsOf` of Funcs.lean is the translation of (`pick_let`: the first `let buckets_size = …` of
                 # the function; io_build_fn checks that there is one only); `none` = it panics (`capacity 0`)
-                if pat != ("pvar", "buckets_size") or ty is not None or not self.f.buckets_of:
+                if pat[0] != "pvar" or pat[1] == "_" or ty is not None or not self.f.buckets_of:
                     fail("%s: a `match` on `%s` that is not the statement `let buckets_size = match %s { … };` which `bucketsOf` "
                          "(Funcs.lean) translates" % (w, self.text(e[1]), self.text(e[1])))
-                ln = self.declare("buckets_size", "int")
-                self.width["buckets_size"] = "u64"
+                ln = self.declare(pat[1], "int")
+                self.width[pat[1]] = "u64"
                 self.f.remarks.append("`let buckets_size = match %s { … };` is `bucketsOf %s` of Funcs.lean (the translation of this "
                                       "statement); `none` (`capacity_to_buckets_size(0)` panics) is the failure of the monad"
                                       % (self.text(e[1]), self.names[e[1][1][1][0]]))
@@ -3771,9 +4245,11 @@ class EmitIO:
             return pre + ["let %s := %s" % (self.names[v], new)] + self.seq(rest, tail, ctx)
         if k == "expr":
             e = st[1]
-            if self.f.engine and e == ("call", ["_cold"], []):
+            if self.f.engine and e == ("call", [IO_COLD[0]], []):
                 self.notes.append("`_cold()` (a hint for the branch predictor: an empty `#[cold]` function, pinned)")
                 return self.seq(rest, tail, ctx)
+            if io_option_match(e) is not None and all(x[2] is None for x in io_option_match(e)[3:5]):
+                e = io_option_match(e)
             if e[0] == "iflet":
                 return self.iflet(e, rest, tail, ctx, True)
             if self.as_try(e) is not None:
@@ -3984,8 +4460,8 @@ class EmitIO:
                 fail("%s: `for` over a value of class %r" % (w, sty_))
             icls, iw = "int", None
         elif (self.f.engine and self.f.eng_self and it[0] == "mcall" and it[1] == ("path", ["self"]) and not it[3]
-              and it[2] in ("key_piece_offset_iter", "value_piece_offset_iter")):
-            via = "key" if it[2].startswith("key") else "val"
+              and it[2] in (IO_PIECE_ITERS["key"], IO_PIECE_ITERS["val"])):
+            via = "key" if it[2] == IO_PIECE_ITERS["key"] else "val"
             g_new, g_next = self.table.get(("PieceOffsetIter", "new")), self.table.get(("PieceOffsetIter", "next_piece_offset"))
             if g_new is None or g_next is None:
                 fail(w + ": the walk over the pieces (`PieceOffsetIter`) is not translated")
@@ -4086,7 +4562,15 @@ class EmitIO:
 
 def io_call_target(f, n, handles=None):
     """the translated function a method call of the body of `f` can refer to:
-    ((owner, method), file of the engine it works on | "self" | None, wrapper argument spec | None)"""
+    ((owner, method), file of the engine it works on | "self" | None, wrapper argument spec | None); the method under its
+    configured name (a private function that the source has renamed: ALIASES)"""
+    t = io_call_target_src(f, n, handles)
+    if t is not None:
+        t = ((t[0][0], ALIASES.src_to_cfg(t[0][0], t[0][1])),) + t[1:]
+    return t
+
+
+def io_call_target_src(f, n, handles=None):
     rt = io_text(n[1])
     if rt in f.vf_texts:
         return (("VarFile", n[2]), None, None)
@@ -4154,8 +4638,10 @@ def io_needs(node, f, table, handles=None):
             t = io_call_target(f, n, handles)
             if t is not None and t[0] in table:
                 out.update(io_map_ctx(x, t[1]) for x in table[t[0]].needs)
-        if n[0] == "call" and len(n[1]) == 1 and f.rel in IO_FREE_OWNER and (IO_FREE_OWNER[f.rel], n[1][0]) in table:
-            out.update(table[(IO_FREE_OWNER[f.rel], n[1][0])].needs)
+        if n[0] == "call" and len(n[1]) == 1 and f.rel in IO_FREE_OWNER:
+            k = (IO_FREE_OWNER[f.rel], ALIASES.src_to_cfg(IO_FREE_OWNER[f.rel], n[1][0]))
+            if k in table:
+                out.update(table[k].needs)
     return [x for x in CTX_ORDER if x in out]
 
 
@@ -4348,6 +4834,8 @@ _ENG_C = "impl<KT: DbMapKeyType + std::fmt::Display> CheckFileDbMap for FileDbXx
 _IT = "DbXxxIterMut"
 _IT_I = "impl<KT: DbMapKeyType> DbXxxIterMut<KT>"
 _IT_ST = "Nat × Nat × Nat × Nat"
+# functions of a block that are not translated but pinned / named by the translation
+IO_PINNED_NAMES = {(IO_DBX, _ENG_I): ("open_with_params", "is_dirty", "key_piece_offset_iter", "value_piece_offset_iter")}
 ENG_FUNCS = [
     (ENG, "load_value", IO_DBX, "loadValue", "(&self, piece_offset: KeyPieceOffset) -> Result<Vec<u8>>", ["off"],
      "(off : Nat) : DbM (List Nat)", {"impl": _ENG_I}),
@@ -4408,6 +4896,26 @@ ENG_FUNCS = [
 ]
 
 
+def lean_let_alpha(term):
+    """a term of the pure translator, `let x := e\n  let y := e'\n  r`, with the `let`-bound names numbered in order (each
+    `let` a new number; a name refers to its latest `let`, the right-hand side is read first): equal for two terms that
+    differ in the names of their locals"""
+    env, out, n = {}, [], 0
+
+    def sub(line):
+        return re.sub(r"(?<![A-Za-z0-9_.'])([A-Za-z_][A-Za-z0-9_']*)", lambda m: env.get(m.group(1), m.group(1)), line)
+    for line in term.split("\n"):
+        m = re.match(r"^(\s*)let ([A-Za-z_][A-Za-z0-9_']*) := (.*)$", line)
+        if m:
+            rhs = sub(m.group(3))
+            n += 1
+            env[m.group(2)] = "x%d" % n
+            out.append("%slet x%d := %s" % (m.group(1), n, rhs))
+        else:
+            out.append(sub(line))
+    return "\n".join(out)
+
+
 def io_pin_semtype(repo, feats):
     """the operators of the erased newtypes are built into EmitIO.px; here the source of
     semtype.rs is translated with the pure-function translator and must give exactly these terms"""
@@ -4432,7 +4940,7 @@ def io_pin_semtype(repo, feats):
     for rust, impl, sig, subst, want in pins:
         partial, term, _notes = translate_fn(repo, feats, IO_ST, rust, None, [], subst, {}, {}, impl=impl,
                                              impl_generics="<T>", expect_sig=sig)
-        if partial or term != want:
+        if partial or lean_let_alpha(term) != lean_let_alpha(want):
             fail("%s::<impl<T> %s>::%s translates to `%s`, the imperative I/O subset assumes `%s`"
                  % (IO_ST, impl, rust, term.replace("\n", " "), want.replace("\n", " ")))
     # comparisons are the derived ones: `val` is the first field, the second is PhantomData;
@@ -4480,6 +4988,8 @@ def io_pin_structs(repo, feats, pure_names):
             got = [v for _k, v in cands[0][0]]
             want = [v for _k, v in tokenize(txt)]
             if got != want:
+                # (the parameters of these constructors are the fields of a struct literal in shorthand: `Self { offset, … }`;
+                # a renamed parameter needs `offset: off`, another token sequence: compared as they are)
                 fail("%s::<%s>::%s is `%s`, the translation is configured for `%s`"
                      % (st["file"], st["impl"], ctor, " ".join(got), " ".join(want)))
         for m, (lean, _a, _r, _w) in st["pure"].items():
@@ -4520,13 +5030,24 @@ def io_pin_piece_iters(repo, feats, methods):
             methods[(rel, header)] = io_find_methods(repo, feats, rel, header)
         cands = methods[(rel, header)].get(name, [])
         got = [v for _k, v in cands[0][0]] if len(cands) == 1 else None
-        if got != [v for _k, v in tokenize(want)]:
+        if got is None or toks_eq_renamed(got, [v for _k, v in tokenize(want)]) is None:
             fail("%s::<%s>::%s is `%s`, the translation of the `for` loops over the pieces is configured for `%s`"
                  % (rel, header, name, " ".join(got) if got else "(%d definitions)" % len(cands), want))
     for rel, eng_m, it, hdr_file, file_ty, gen, arg, tag in (
             (IO_KEY, "key_piece_offset_iter", "KeyPieceOffsetIter", "impl<KT: DbMapKeyType> KeyFile<KT>", "&KeyFile<KT>",
              "<KT: DbMapKeyType>", "key_file", "Key"),
             (IO_VAL, "value_piece_offset_iter", "ValuePieceOffsetIter", "impl ValueFile", "&ValueFile", "", "val_file", "Value")):
+        # (a private wrapper: under another name it is the one private method of the block with exactly this body)
+        if (IO_DBX, _ENG_I) not in methods:
+            methods[(IO_DBX, _ENG_I)] = io_find_methods(repo, feats, IO_DBX, _ENG_I)
+        if eng_m not in methods[(IO_DBX, _ENG_I)]:
+            same = [m_ for m_, c_ in sorted(methods[(IO_DBX, _ENG_I)].items())
+                    if len(c_) == 1 and c_[0].vis != "pub" and m_ not in io_configured_names(IO_DBX, _ENG_I, True)
+                    and [v for _k, v in c_[0][0]] == [v for _k, v in tokenize(
+                        "fn %s(&self) -> %s { self.%s.piece_offset_iter() }" % (m_, it, arg))]]
+            if len(same) == 1:
+                IO_PIECE_ITERS["key" if tag == "Key" else "val"] = same[0]
+        eng_m = IO_PIECE_ITERS["key" if tag == "Key" else "val"]
         pin(IO_DBX, _ENG_I, eng_m, "fn %s(&self) -> %s { self.%s.piece_offset_iter() }" % (eng_m, it, arg))
         pin(rel, hdr_file, "piece_offset_iter", "fn piece_offset_iter(&self) -> %s { %s::new(self).unwrap() }" % (it, it))
         io_pin_tokens(repo, rel, "pub(crate) struct " + it,
@@ -4555,7 +5076,7 @@ def io_strip_tc(ts):
 def io_pin_tokens(repo, relpath, lead, want, what):
     got = io_find_item_tokens(repo, relpath, lead)
     want = [v for _k, v in tokenize(want)]
-    if got != want:
+    if toks_eq_renamed(got, want) is None:                  # (equal up to the names bound inside: a definition binds none)
         fail("%s: %s is `%s`, the translation is configured for `%s`" % (relpath, what, " ".join(got), " ".join(want)))
 
 
@@ -4591,7 +5112,7 @@ def io_pin_htx(repo, feats, const_srcs):
                             ("impl rabuf::SmallWrite for VarFile", "write_u64_le",
                              "fn write_u64_le(&mut self, val: u64) -> Result<()> { self.buf_file.write_u64_le(val) }")):
         cands = io_find_methods(repo, feats, IO_VF, header).get(m, [])
-        if len(cands) != 1 or [v for _k, v in cands[0][0]] != [v for _k, v in tokenize(body)]:
+        if len(cands) != 1 or toks_eq_renamed([v for _k, v in cands[0][0]], [v for _k, v in tokenize(body)]) is None:
             fail("%s::<%s>::%s is not `%s`" % (IO_VF, header, m, body))
 
 
@@ -4623,13 +5144,14 @@ def io_wrappers(repo, feats, relpath, header, inner_owner, done):
             continue
         st, tl = body[1][0], body[2]
         lock = st[3] if st[0] == "let" else None
-        if not (st[0] == "let" and st[1] == ("pvar", "locked") and st[2] is None and st[4]
+        if not (st[0] == "let" and st[1][0] == "pvar" and st[1][1] != "_" and st[2] is None and st[4]
                 and lock in (("mcall", ("field", ("path", ["self"]), "0"), "borrow_mut", []),
                              ("call", ["RefCell", "borrow_mut"], [("field", ("path", ["self"]), "0")]))):
             continue
-        if not (tl[0] == "mcall" and tl[1] == ("path", ["locked"]) and (inner_owner, tl[2]) in done):
-            continue
         names = [x[0] for x in params]
+        inner = ALIASES.src_to_cfg(inner_owner, tl[2]) if tl[0] == "mcall" else None
+        if not (tl[0] == "mcall" and tl[1] == ("path", [st[1][1]]) and st[1][1] not in names and (inner_owner, inner) in done):
+            continue
         spec = []
         for a in tl[3]:
             if a[0] == "path" and len(a[1]) == 1 and a[1][0] in names:
@@ -4641,7 +5163,7 @@ def io_wrappers(repo, feats, relpath, header, inner_owner, done):
                 break
         if spec is None or sorted(x[1] for x in spec if x[0] == "param") != list(range(len(names))):
             continue
-        g = done[(inner_owner, tl[2])]
+        g = done[(inner_owner, inner)]
         # the wrapper's types are those of the function behind it
         gp = [p_ for p_ in g.params if p_.cls != "vfile"]
         ok = len(gp) == len(spec) and ret == g.ret_text
@@ -4652,7 +5174,7 @@ def io_wrappers(repo, feats, relpath, header, inner_owner, done):
                 ok = ok and p_.cls == "bool"
         if not ok:
             fail("%s: the types of the wrapper differ from those of `%s`" % (where, tl[2]))
-        out[m] = (tl[2], len(names), spec)
+        out[m] = (inner, len(names), spec)
     return out
 
 
@@ -4681,7 +5203,8 @@ def io_pin_open(repo, feats, pure_names):
             fail("%s::<%s>: its methods are `%s`; `read_exact` / `write_all` are translated as std's default loops over "
                  "`read` / `write`, which must be the only methods (%s)" % (IO_VF, header, "`, `".join(sorted(ms)), ", ".join(sorted(bodies))))
         for m, body in bodies.items():
-            if body is not None and (len(ms[m]) != 1 or [v for _k, v in ms[m][0][0]] != [v for _k, v in tokenize(body)]):
+            if body is not None and (len(ms[m]) != 1 or
+                                     toks_eq_renamed([v for _k, v in ms[m][0][0]], [v for _k, v in tokenize(body)]) is None):
                 fail("%s::<%s>::%s is not `%s`" % (IO_VF, header, m, body))
     ms = io_find_methods(repo, feats, IO_HTX, "impl VarFileHtxCache").get("new", [])
     want = ('fn new(file: VarFile) -> Self { Self { file, buckets_size: 0, #[cfg(feature = "htx_print_hits")] hits: 0, '
@@ -4706,7 +5229,16 @@ def io_pin_engine(repo, feats):
                   "val_file: val::ValueFile, htx_file: htx::HtxFile, _phantom: std::marker::PhantomData<KT>, }",
                   "the definition of `FileDbXxxInner`")
     io_pin_handles(repo)
-    io_pin_tokens(repo, IO_MOD, "fn _cold", "#[inline] #[cold] fn _cold() {}", "the definition of `_cold`")
+    # the empty `#[cold]` function (a hint for the branch predictor), whatever it is called (a private function)
+    want = [v for _k, v in tokenize("#[inline] #[cold] fn _cold() {}")]
+    toks = tokenize(strip_comments(open(os.path.join(repo, IO_MOD)).read()))
+    colds = [toks[s_ + 1][1] for a_, s_, e_ in split_items(toks, 0, len(toks))
+             if e_ - a_ == len(want) and toks[s_][1] == "fn" and toks[s_ + 1][0] == "id"
+             and [v for _k, v in toks[a_:s_ + 1]] + ["_cold"] + [v for _k, v in toks[s_ + 2:e_]] == want]
+    if "_cold" not in colds and len(colds) == 1:
+        IO_COLD[0] = colds[0]
+    else:
+        io_pin_tokens(repo, IO_MOD, "fn _cold", "#[inline] #[cold] fn _cold() {}", "the definition of `_cold`")
     src = strip_comments(open(os.path.join(repo, "src/lib.rs")).read())
     if len(re.findall(r"fn\s+cmp_u8\(&self,\s*other:\s*&\[u8\]\)\s*->\s*std::cmp::Ordering;", src)) != 1:
         fail("src/lib.rs: `DbMapKeyType::cmp_u8(&self, other: &[u8]) -> std::cmp::Ordering` not found")
@@ -4786,17 +5318,20 @@ def io_format_parts(where, lit, names):
     return parts
 
 
-def io_file_name(where, feats, params, stmts, ext):
+def io_file_name(where, feats, params, stmts, ext, pb="pb"):
     """the path statements of an `open_with_params` (token lists, each ending with `;`): exactly
     `let mut pb = path.as_ref().to_path_buf();` (the database directory `path: P`, `P: AsRef<Path>`) and
     `pb.push(format!("…{ks_name}…"));` — the formatted string is pushed onto the directory, i.e. it is the NAME of the file
-    inside the directory; `pb` is what `OpenOptions::…::open(pb)` opens (pinned with the rest of the prefix).
+    inside the directory; `pb` is what `OpenOptions::…::open(pb)` opens (pinned with the rest of the prefix; `pb`: the name
+    of that local in the source).  `path` / `ks_name` are the parameters of type `P` / `&str`, whatever the source calls them.
     Value: (Lean name, Lean definition text)."""
     if not stmts:
         fail("%s: no statement between `let piece_mgr …;` and `let std_file …;` builds the path of the file" % where)
     strs = dict((n, t) for n, t in params if t == "&str")
-    if ("path", "P") not in params or "ks_name" not in strs:
+    dirs = [n for n, t in params if t == "P"]
+    if len(dirs) != 1 or len(strs) != 1:
         fail("%s: the parameters are not `path: P` (the directory) and `ks_name: &str` (the name of the map)" % where)
+    path, ks_name = dirs[0], list(strs)[0]
     pp = P([("op", "{")] + [t for st in stmts for t in st] + [("op", "}")], feats, where)
     pp.keep_try = True
     body = pp.block()
@@ -4810,20 +5345,20 @@ def io_file_name(where, feats, params, stmts, ext):
             return rs_show(st[1]) + ";"
         return st[0] + " …"
 
-    want0 = ("let", ("pvar", "pb"), None, ("mcall", ("mcall", ("path", ["path"]), "as_ref", []), "to_path_buf", []), True)
+    want0 = ("let", ("pvar", pb), None, ("mcall", ("mcall", ("path", [path]), "as_ref", []), "to_path_buf", []), True)
     if body[1][0] != want0:
         fail("%s: the first path statement is `%s`, not `let mut pb = path.as_ref().to_path_buf();`" % (where, show(body[1][0])))
     if len(body[1]) < 2:
         fail("%s: nothing is pushed onto the path `pb` (the directory itself would be opened)" % where)
     for x in body[1][1:]:
         xe = x[1] if x[0] == "expr" else None
-        if xe is not None and xe[0] == "mcall" and xe[1] == ("path", ["pb"]) and xe[2] != "push":
+        if xe is not None and xe[0] == "mcall" and xe[1] == ("path", [pb]) and xe[2] != "push":
             fail("%s: the path of the file is built with `pb.%s(..)` (`%s`): only `pb.push(format!(\"…\"))` — a file name inside "
                  "the directory — is in the subset (`set_extension` / `set_file_name` / `pop` replace or reinterpret parts of the "
                  "path: `\"a.b\".set_extension(\"val\")` is `a.val`)" % (where, xe[2], show(x)))
     st = body[1][1]
     e = st[1] if st[0] == "expr" else None
-    if e is None or e[0] != "mcall" or e[1] != ("path", ["pb"]):
+    if e is None or e[0] != "mcall" or e[1] != ("path", [pb]):
         fail("%s: the second path statement is `%s`, not `pb.push(format!(\"…\"));`" % (where, show(st)))
     if not (len(e[3]) == 1 and e[3][0][0] == "call" and e[3][0][1] == ["format!"]):
         fail("%s: the argument of `pb.push(..)` is `%s`, not a `format!(\"…\")`" % (where, rs_show(e[3][0]) if e[3] else ""))
@@ -4834,13 +5369,13 @@ def io_file_name(where, feats, params, stmts, ext):
     if len(body[1]) > 2:
         x = body[1][2]
         xe = x[1] if x[0] == "expr" else None
-        what = "`pb.%s(..)`" % xe[2] if (xe is not None and xe[0] == "mcall" and xe[1] == ("path", ["pb"])) else "a statement"
+        what = "`pb.%s(..)`" % xe[2] if (xe is not None and xe[0] == "mcall" and xe[1] == ("path", [pb])) else "a statement"
         fail("%s: %s after `pb.push(format!(..));` (`%s`): the path statements must be exactly `let mut pb = "
              "path.as_ref().to_path_buf(); pb.push(format!(\"…\"));`" % (where, what, show(x)))
     parts = io_format_parts(where, fa[0][1], strs)
-    if [p_ for p_ in parts if p_[0] == "var"] != [("var", "ks_name")]:
+    if [p_ for p_ in parts if p_[0] == "var"] != [("var", ks_name)]:
         fail("%s: format string %s: `{ks_name}` does not occur exactly once" % (where, fa[0][1]))
-    term = " ++ ".join('"%s"' % t if k_ == "lit" else io_ident(t) for k_, t in parts)
+    term = " ++ ".join('"%s"' % t if k_ == "lit" else "ksName" for k_, t in parts)
     lean = ext + "FileName"
     text = ("/-- %s, the path statements `let mut pb = path.as_ref().to_path_buf(); pb.push(format!(%s));` — `pb` is what "
             "`OpenOptions::new()….open(pb)?` opens (pinned): the NAME of the file inside the database directory `path` (`PathBuf::push` "
@@ -4848,10 +5383,6 @@ def io_file_name(where, feats, params, stmts, ext):
             "directory: not modelled).  `{ks_name}` is the `Display` of the `&str` parameter `ks_name`, the string itself. -/\n"
             "def %s (ksName : String) : String := %s\n" % (where, fa[0][1], lean, term))
     return lean, text
-
-
-IO_HASH_STMT = ("let", ("pvar", "hash"), None,
-                ("call", ["HashValue", "new"], [("mcall", ("path", ["key_kt"]), "hash_value", [])]), False)
 
 
 def io_build_fn(repo, feats, methods, spec, engine):
@@ -4869,25 +5400,24 @@ def io_build_fn(repo, feats, methods, spec, engine):
     if (rel, header) not in methods:
         methods[(rel, header)] = io_find_methods(repo, feats, rel, header) if header is not None else io_find_free_fns(repo, feats, rel)
     cands = methods[(rel, header)].get(rust, [])
+    want = io_strip_tc([v for _k, v in tokenize(sig)])
+    if len(cands) == 0:
+        # a private function that the source has renamed (all call sites with it)?
+        cands = io_find_renamed(methods[(rel, header)], owner, rust, want, io_configured_names(rel, header, engine), where,
+                                "%s: %d definitions with a true `#[cfg]` (exactly one expected)" % (where, len(cands)))
     if len(cands) != 1:
         fail("%s: %d definitions with a true `#[cfg]` (exactly one expected)" % (where, len(cands)))
     toks, blockdesc = cands[0]
     recv, params, ret, ib = io_parse_sig(toks, where, assoc=bool(opts.get("assoc")))
     if (recv is None) != bool(opts.get("assoc")):
         fail("%s: configuration error: receiver / associated function" % where)
-    got = [v for _k, v in toks[2:ib]]
-    if got and got[0] == "<":
-        depth, j = 0, 0
-        while True:
-            depth += (got[j] == "<") - (got[j] == ">") - 2 * (got[j] == ">>")
-            j += 1
-            if depth == 0:
-                break
-        got = got[j:]
-    got = io_strip_tc(got)
-    want = io_strip_tc([v for _k, v in tokenize(sig)])
-    if got != want:
+    got = io_sig_toks(toks)
+    pairs = sig_eq_renamed(got, want)
+    if pairs is None or [g for _w, g in pairs] != [n for n, _t in params]:
         fail("%s: signature is `%s`, the translation is configured for `%s`" % (where, " ".join(got), " ".join(want)))
+    # the names the source gives the parameters; from here on `params` has the configured names (the body is renamed below)
+    src_params = params
+    params = [(w, t) for (w, _g), (_n, t) in zip(pairs, params)]
     f = IoFn()
     # a function that does not return a `Result` (`next_piece_offset`, `Iterator::next`): its value is the
     # value of the Lean function; a panic inside (`.unwrap()` of an `Err`) is the failure of the monad
@@ -4901,7 +5431,7 @@ def io_build_fn(repo, feats, methods, spec, engine):
     f.monad, f.failtxt, f.fueltxt = ("DbM", "DbM.fail", "DbM.keyLen") if engine else ("M", "FileM.fail", "FileM.fileLen")
     if "fuel" in opts:
         f.fueltxt = opts["fuel"]
-    f.src = "%s %s, `fn %s`" % (rel, blockdesc, rust)
+    f.src = "%s %s, `fn %s`%s" % (rel, blockdesc, rust, ALIASES.note(owner, rust))
     f.ret_text = ret
     rtxt = ret if f.plain else ret[len("Result<"):-1]
     f.state = state if (state and recv is not None) else None     # `&mut self` is threaded through as the tuple `st`
@@ -5002,44 +5532,57 @@ def io_build_fn(repo, feats, methods, spec, engine):
         fail("%s: %d expressions denote the VarFile (exactly one expected)" % (where, len(f.vf_texts)))
     btoks = toks[ib:]
     if f.open_kind:
-        # the statements in front of `let file_length …`: compared with the configured text, dropped
+        # the statements in front of `let file_length …`: compared with the configured text, dropped.  The prefix ends with the
+        # statement that builds the buffer, `let mut <file> = match <params>.<ext>_buf_size { … };` (found by its shape, whatever
+        # the locals are called); the statement after it is the first one that is translated.
         subst, cache, _cls = IO_OPEN[f.open_kind]
-        depth, cuts = 0, []
-        for j, (_k, v) in enumerate(btoks):
-            if v in ("{", "(", "["):
-                depth += 1
-            elif v in ("}", ")", "]"):
-                depth -= 1
-            elif depth == 1 and v == "let" and btoks[j + 1][1] == "file_length":
-                cuts.append(j)
-        if len(cuts) != 1:
-            fail("%s: %d statements `let file_length …` at the top of the body (exactly one expected)" % (where, len(cuts)))
-        # the statements of the prefix; those between `let piece_mgr …;` and `let std_file …;` name the file
-        pre, depth, s0 = [], 0, 1
-        for j in range(1, cuts[0]):
+        pname = dict((w, g) for w, g in pairs).get("params", "params")      # the name the source gives `params: &FileDbParams`
+        tops, depth, s0 = [], 0, 1                                          # the top-level statements of the body (token ranges)
+        for j in range(1, len(btoks) - 1):
             v = btoks[j][1]
             depth += (v in ("{", "(", "[")) - (v in ("}", ")", "]"))
-            if v == ";" and depth == 0:
-                pre.append(btoks[s0:j + 1])
+            if depth == 0 and (v == ";" or (v == "}" and btoks[j + 1][1] not in (";", ".", "?", "else", ")", ","))):
+                tops.append((s0, j + 1))
                 s0 = j + 1
-        if s0 != cuts[0]:
+        bufs = [n for n, (a_, b_) in enumerate(tops)
+                if [t_[1] for t_ in btoks[a_:a_ + 2]] == ["let", "mut"] and btoks[a_ + 2][0] == "id"
+                and [t_[1] for t_ in btoks[a_ + 3:a_ + 8]] == ["=", "match", pname, ".", subst["ext"] + "_buf_size"]]
+        if len(bufs) != 1 or bufs[0] + 1 >= len(tops):
+            fail("%s: %d statements `let file_length …` at the top of the body (exactly one expected)" % (where, len(bufs)))
+        cut = tops[bufs[0] + 1][0]
+        # the statements of the prefix; those between `let piece_mgr …;` and `let std_file …;` name the file
+        pre = [btoks[a_:b_] for a_, b_ in tops[:bufs[0] + 1]]
+        if any(st[-1][1] != ";" for st in pre):
             fail("%s: the statements in front of `let file_length …` do not end with a `;`" % where)
-        lead = [[v for _k, v in st[:2]] for st in pre]
-        if lead.count(["let", "piece_mgr"]) != 1 or lead[:1] != [["let", "piece_mgr"]] or lead.count(["let", "std_file"]) != 1:
+
+        def opens_with(st, *ts):
+            return [v for _k, v in st[:1]] == ["let"] and st[1][0] == "id" and [v for _k, v in st[2:2 + len(ts)]] == list(ts)
+        is_pm = [opens_with(st, "=", "PieceMgr", "::", "new", "(") for st in pre]
+        is_sf = [opens_with(st, "=", "OpenOptions", "::", "new", "(") for st in pre]
+        if is_pm.count(True) != 1 or not is_pm[0] or is_sf.count(True) != 1:
             fail("%s: the statements in front of `let file_length …` do not start with `let piece_mgr …;` / have not exactly one "
                  "`let std_file …;`" % where)
-        k_sf = lead.index(["let", "std_file"])
-        f.file_name = io_file_name(where, feats, params, pre[1:k_sf], subst["ext"])
+        k_sf = is_sf.index(True)
         got = io_strip_tc([v for st in pre[:1] + pre[k_sf:] for _k, v in st])
         want = io_strip_tc([v for _k, v in tokenize(IO_OPEN_PREFIX % subst)])
-        if got != want:
+        # compared up to the names of the locals (`piece_mgr`, `std_file`, `file`, `val`, …) and of the parameters; `pb` is bound
+        # by the path statements, which are not part of the configured text
+        pbs = [got[j + 1] for j in range(1, len(got) - 2) if got[j - 1:j + 1] == ["open", "("] and got[j + 2] == ")"]
+        pbn = pbs[0] if (len(pbs) == 1 and is_ident(pbs[0])) else "pb"
+        hd_g = ["fn", "f", "("] + [x for _w, g in pairs for x in (g, ":", "T", ",")] + [")", "{", "let", pbn, ";"]
+        hd_w = ["fn", "f", "("] + [x for w, _g in pairs for x in (w, ":", "T", ",")] + [")", "{", "let", "pb", ";"]
+        loc = toks_eq_renamed(hd_g + got, hd_w + want)
+        if loc is None:
             k_ = next((i for i, (a_, b_) in enumerate(zip(got, want)) if a_ != b_), min(len(got), len(want)))
             fail("%s: the statements in front of `let file_length …` (piece manager, `OpenOptions`, the `match params.%s_buf_size` "
                  "that builds the buffer; without the path statements) are not the ones the translation is configured for; first "
                  "difference at token %d: "
                  "`… %s` (source) / `… %s` (configured)" % (where, subst["ext"], k_, " ".join(got[max(0, k_ - 3):k_ + 4]),
                                                            " ".join(want[max(0, k_ - 3):k_ + 4])))
-        btoks = [btoks[0]] + btoks[cuts[0]:]
+        f.file_name = io_file_name(where, feats, src_params, pre[1:k_sf], subst["ext"], loc.get("pb", "pb"))
+        # the VarFile is the local that the buffer statement binds
+        f.vf_texts = set([loc.get("file", "file")])
+        btoks = [btoks[0]] + btoks[cut:]
         f.pre_notes.append("the statements in front of `let file_length …`, compared token-wise with the configured text on every run: "
                            "`let piece_mgr = PieceMgr::new(&%s, &%s);` (the `FileCfg` of the file), "
                            "`OpenOptions::new().read(true).write(true).create(true).truncate(false).open(pb)?`, `let mut file = match "
@@ -5054,6 +5597,8 @@ def io_build_fn(repo, feats, methods, spec, engine):
         fail("%s: tokens after the body" % where)
     f.dropped = p.dropped
     f.kept = p.kept
+    # the parameters under their configured names (a consistent renaming of bound names)
+    f.body = rename_params(f.body, [g for _w, g in pairs], [w for w, _g in pairs], where)
     if f.open_kind:
         # the local cache struct around the file: `<c>.file` denotes the VarFile from its declaration on
         for n in io_walk(f.body):
@@ -5064,31 +5609,60 @@ def io_build_fn(repo, feats, methods, spec, engine):
                 f.caches[sname] = n[1][1]
                 if fld is not None:
                     f.vf_texts.add(n[1][1] + ".file")
-        # `bucketsOf` (Funcs.lean) is the translation of the first `let buckets_size = …` of this function: there is one only
-        nlet = sum(1 for j in range(len(toks) - 2) if [t_[1] for t_ in toks[j:j + 3]] == ["let", "buckets_size", "="])
+        # `bucketsOf` (Funcs.lean) is the translation of the first `let <v> = match params.buckets_size { … }` of this function:
+        # there is one only
+        nlet = sum(1 for j in range(len(toks) - 6) if toks[j][1] == "let" and toks[j + 1][0] == "id"
+                   and [t_[1] for t_ in toks[j + 2:j + 7]] == ["=", "match", pname, ".", "buckets_size"])
         f.buckets_of = f.open_kind == "htx" and nlet == 1
     if owner == "HtxFile":
-        # `let mut locked = RefCell::borrow_mut(&self.0);` opens every method: the VarFile is `locked.file`,
-        # the field `locked.buckets_size` is the context parameter `bucketsSize`
+        # `let mut locked = RefCell::borrow_mut(&self.0);` opens every method (whatever the local is called): the VarFile is
+        # `locked.file`, the field `locked.buckets_size` is the context parameter `bucketsSize`
         st = f.body[1][0] if f.body[1] else None
-        if st != ("let", ("pvar", "locked"), None, ("call", ["RefCell", "borrow_mut"], [("field", ("path", ["self"]), "0")]), True):
+        if not (st is not None and st[0] == "let" and st[1][0] == "pvar" and st[1][1] != "_" and
+                st[2:] == (None, ("call", ["RefCell", "borrow_mut"], [("field", ("path", ["self"]), "0")]), True)):
             fail("%s: the body does not start with `let mut locked = RefCell::borrow_mut(&self.0);`" % where)
+        h = st[1][1]
         f.body = ("block", f.body[1][1:], f.body[2])
-        lk = ("path", ["locked"])
+        lk = ("path", [h])
         if sum(1 for n in io_walk(f.body) if n == lk) != \
                 sum(1 for n in io_walk(f.body) if n[0] == "field" and n[1] == lk and n[2] in ("file", "buckets_size")):
-            fail("%s: `locked` is used other than as `locked.file` / `locked.buckets_size`" % where)
-        if any(n[0] == "assign" and io_text(n[2]).startswith("locked") for n in io_walk(f.body)):
-            fail("%s: a field of `locked` is assigned" % where)
-        f.field_params = {"locked.buckets_size": ("bucketsSize", "int", "u64")}
-        f.pre_notes.append("`let mut locked = RefCell::borrow_mut(&self.0);` (`locked.file` is the file, `locked.buckets_size` "
-                           "the parameter `bucketsSize`)")
+            fail("%s: `%s` is used other than as `%s.file` / `%s.buckets_size`" % (where, h, h, h))
+        if any(n[0] == "assign" and (io_text(n[2]) == h or io_text(n[2]).startswith(h + ".")) for n in io_walk(f.body)):
+            fail("%s: a field of `%s` is assigned" % (where, h))
+        if h in io_declared(f.body) or any(p_.rust == h for p_ in f.params):
+            fail("%s: `%s` is declared more than once" % (where, h))
+        f.vf_texts = set([h + ".file"])
+        f.field_params = {h + ".buckets_size": ("bucketsSize", "int", "u64")}
+        f.pre_notes.append("`let mut %s = RefCell::borrow_mut(&self.0);` (`%s.file` is the file, `%s.buckets_size` "
+                           "the parameter `bucketsSize`)" % (h, h, h))
+    if f.lock:
+        # the handle held open: `let mut <h> = self.0.borrow_mut();` (IO_LOCKS names the usual local; any name will do)
+        hs = [n[1][1] for n in io_walk(f.body) if n[0] == "let" and n[1][0] == "pvar" and n[2] is None and n[4]
+              and n[3] in (("mcall", ("field", ("path", ["self"]), "0"), "borrow_mut", []),
+                           ("call", ["RefCell", "borrow_mut"], [("field", ("path", ["self"]), "0")]))]
+        if len(hs) == 1 and hs[0] != f.lock and vf_text == f.lock + ".0":
+            f.lock = hs[0]
+            f.vf_texts = set([hs[0] + ".0"])
     if engine and opts.get("hash"):
-        if not f.body[1] or f.body[1][0] != IO_HASH_STMT:
-            fail("%s: the body does not start with `let hash = HashValue::new(key_kt.hash_value());`" % where)
-        f.body = ("block", f.body[1][1:], f.body[2])
-        f.pre_notes.append("`let hash = HashValue::new(key_kt.hash_value());` (the parameter `hash`: the caller computes it, "
-                           "`Abyss.hashValue key`)")
+        # the hash of the key is the parameter `hash`: the body opens with `let hash = HashValue::new(key_kt.hash_value());` (any
+        # name), or it has this (pure) expression inline wherever it uses the hash
+        keyp = params[0][0]
+        hexpr = ("call", ["HashValue", "new"], [("mcall", ("path", [keyp]), "hash_value", [])])
+        st = f.body[1][0] if f.body[1] else None
+        nohash = "%s: the body does not start with `let hash = HashValue::new(key_kt.hash_value());`" % where
+        if keyp in io_declared(f.body):
+            fail(nohash)
+        if st is not None and st[0] == "let" and st[1][0] == "pvar" and st[1][1] != "_" and st[2:] == (None, hexpr, False):
+            f.body = rename_params(("block", f.body[1][1:], f.body[2]), [st[1][1]], ["hash"], where,
+                                   [p_.rust for p_ in f.params if p_.rust != "hash"])
+            f.pre_notes.append("`let hash = HashValue::new(key_kt.hash_value());` (the parameter `hash`: the caller computes it, "
+                               "`Abyss.hashValue key`)")
+        else:
+            if not any(n == hexpr for n in io_walk(f.body)) or "hash" in (ast_names(f.body) | set(n_ for n_, _t in params)):
+                fail(nohash)
+            f.body = ast_subst(f.body, hexpr, ("path", ["hash"]))
+            f.pre_notes.append("`HashValue::new(key_kt.hash_value())`, written inline where the hash is used (the parameter `hash`: "
+                               "the caller computes it, `Abyss.hashValue key`)")
     if engine:
         # names that stand for the key file held open
         for n in io_walk(f.body):
@@ -5111,6 +5685,20 @@ def io_build_fn(repo, feats, methods, spec, engine):
     return f
 
 
+def io_configured_names(rel, header, engine):
+    """the names of the functions of the block `header` of the file `rel` that are configured (translated or pinned): a
+    function that was renamed is looked for among the others"""
+    out = set(IO_PINNED_NAMES.get((rel, header), ()))
+    for spec in IO_FUNCS:
+        opts = spec[7] if len(spec) > 7 and isinstance(spec[7], dict) else {}
+        if spec[2] == rel and opts.get("impl", IO_OWNERS[spec[0]][0]) == header:
+            out.add(spec[1])
+    for spec in ENG_FUNCS:
+        if spec[2] == rel and spec[7]["impl"] == header:
+            out.add(spec[1])
+    return out
+
+
 def io_translate(fns, specs, done, order):
     """translate the functions `fns` (key -> IoFn), callees first; `done` holds the functions translated before"""
     for f in fns.values():
@@ -5121,7 +5709,7 @@ def io_translate(fns, specs, done, order):
                 if k in fns and k not in f.calls:
                     f.calls.append(k)
             if n[0] == "call" and len(n[1]) == 1 and f.rel in IO_FREE_OWNER:
-                k = (IO_FREE_OWNER[f.rel], n[1][0])              # a free function of the same file
+                k = (IO_FREE_OWNER[f.rel], ALIASES.src_to_cfg(IO_FREE_OWNER[f.rel], n[1][0]))    # a free function of the same file
                 if k in fns and k not in f.calls:
                     f.calls.append(k)
 
@@ -5244,7 +5832,8 @@ def emit_open_map(repo, feats, done, methods):
         fail("%s: %d definitions with a true `#[cfg]` (exactly one expected)" % (where, len(cands)))
     toks, blockdesc = cands[0]
     recv, params, ret, ib = io_parse_sig(toks, where, assoc=True)
-    if recv is not None or params != [("path", "P"), ("ks_name", "&str"), ("params", "FileDbParams")] or ret != "Result<FileDbXxxInner<KT>>":
+    if recv is not None or [t for _n, t in params] != ["P", "&str", "FileDbParams"] or ret != "Result<FileDbXxxInner<KT>>" \
+            or len(set(n for n, _t in params)) != 3:
         fail("%s: signature is not `(path: P, ks_name: &str, params: FileDbParams) -> Result<FileDbXxxInner<KT>>`" % where)
     src = strip_comments(open(os.path.join(repo, "src/lib.rs")).read())
     if len(re.findall(r"fn\s+signature\(\)\s*->\s*\[u8;\s*8\];", src)) != 1:
@@ -5254,16 +5843,21 @@ def emit_open_map(repo, feats, done, methods):
     body = pp.block()
     if pp.i != len(toks) - ib or pp.dropped or pp.kept:
         fail("%s: tokens after the body / `#[cfg]` statements" % where)
+    body = rename_params(body, [n for n, _t in params], ["path", "ks_name", "params"], where)     # the parameters under their configured names
     lets = [st for st in body[1] if st[0] == "let"]
     if len(lets) != len(body[1]) or len(lets) != len(ENG_OPEN_ORDER):
         fail("%s: the body is not %d `let` statements and a value" % (where, len(ENG_OPEN_ORDER)))
-    order = [st[1][1] if st[1][0] == "pvar" else "?" for st in lets]
-    if order != [x[0] for x in ENG_OPEN_ORDER]:
+    # which file a statement opens is what it calls (`key::KeyFile::open_with_params`), whatever the local is called
+    opened = dict(((x[1], x[2]), x[0]) for x in ENG_OPEN_ORDER)
+    order = [opened.get(tuple(st[3][1][1][:2]), st[1][1]) if (st[1][0] == "pvar" and st[3][0] == "try" and st[3][1][0] == "call"
+                                                             and len(st[3][1][1]) == 3) else "?" for st in lets]
+    locs = [st[1][1] if st[1][0] == "pvar" else "?" for st in lets]
+    if order != [x[0] for x in ENG_OPEN_ORDER] or len(set(locs)) != len(locs) or "_" in locs:
         fail("%s: the files are opened in the order `%s`, the translation (and the model `Abyss.openAccepts`: key file, value file, "
              "table file) is configured for `%s`" % (where, "`, `".join(order), "`, `".join(x[0] for x in ENG_OPEN_ORDER)))
     lines = []
     for st, (fld, mod, hty, owner, lift) in zip(lets, ENG_OPEN_ORDER):
-        want = ("let", ("pvar", fld), None,
+        want = ("let", ("pvar", st[1][1]), None,
                 ("try", ("call", [mod, hty, "open_with_params"],
                          [("path", ["path"]), ("path", ["ks_name"]), ("call", ["KT", "signature"], []), ("path", ["params"])])), False)
         if st != want:
@@ -5280,7 +5874,7 @@ def emit_open_map(repo, feats, done, methods):
             lines.append("let htxFileBucketsSize ← " + call)
         else:
             fail("%s: the handle `%s` has data of class %r" % (where, fld, g.ret))
-    want_tail = ("call", ["Ok"], [("structlit", "Self", [[x[0], ("path", [x[0]])] for x in ENG_OPEN_ORDER] + [
+    want_tail = ("call", ["Ok"], [("structlit", "Self", [[x[0], ("path", [v_])] for x, v_ in zip(ENG_OPEN_ORDER, locs)] + [
         ["dirty", ("path", ["true"])], ["_phantom", ("path", ["std", "marker", "PhantomData"])]])])
     if body[2] != want_tail:
         fail("%s: the value is not `Ok(Self { key_file, val_file, htx_file, dirty: true, _phantom: std::marker::PhantomData, })`" % where)
@@ -5343,7 +5937,7 @@ def fl_find_var(st):
     """`let <v> = self.find_in_hash_buckets_kt(<a>, <b>)?;` -> v (whatever the local names are), else None"""
     if (isinstance(st, tuple) and len(st) == 5 and st[0] == "let" and st[1][0] == "pvar" and st[2] is None and st[4] is False
             and st[3][0] == "try" and st[3][1][0] == "mcall" and st[3][1][1] == ("path", ["self"])
-            and st[3][1][2] == "find_in_hash_buckets_kt" and len(st[3][1][3]) == 2):
+            and ALIASES.src_to_cfg(ENG, st[3][1][2]) == "find_in_hash_buckets_kt" and len(st[3][1][3]) == 2):
         return st[1][1]
     return None
 
@@ -5355,7 +5949,7 @@ def fl_pin_method(repo, feats, methods, rel, header, name, want):
     if len(cands) != 1:
         fail("%s::<%s>::%s: %d definitions with a true `#[cfg]` (exactly one expected)" % (rel, header, name, len(cands)))
     got = [v for _k, v in cands[0][0]]
-    if got != [v for _k, v in tokenize(want)]:
+    if toks_eq_renamed(got, [v for _k, v in tokenize(want)]) is None:       # equal up to the names of the parameters / locals
         fail("%s::<%s>::%s is `%s`, the translation is configured for `%s`" % (rel, header, name, " ".join(got), want))
     return cands[0]
 
@@ -5523,18 +6117,25 @@ def emit_dbsync(repo, feats, methods):
     # ---- `applay_all`
     where = "%s::<%s>::applay_all" % (IO_MOD, DB_IMPL)
     cands = methods[(IO_MOD, DB_IMPL)].get("applay_all", [])
+    if len(cands) == 0:
+        # the (private) function under another name: the one with its signature; `sync_all` / `sync_data` must call it (below)
+        cands = io_find_renamed(methods[(IO_MOD, DB_IMPL)], "inner", "applay_all", io_sig_toks(tokenize(DB_APPLY_SIG + " {}")),
+                                set(r for r, _l in REG_INNER_FUNCS) | set(REG_INNER_OTHER), where,
+                                "%s: %d definitions with a true `#[cfg]` (exactly one expected)" % (where, len(cands)))
     if len(cands) != 1:
         fail("%s: %d definitions with a true `#[cfg]` (exactly one expected)" % (where, len(cands)))
     toks = cands[0][0]
     tv = [v for _k, v in toks]
     ib = tv.index("{")
-    if tv[:ib] != [v for _k, v in tokenize(DB_APPLY_SIG)]:
+    pairs = sig_eq_renamed(io_sig_toks(toks), io_sig_toks(tokenize(DB_APPLY_SIG + " {}")))
+    if pairs is None or tv[2:5] != ["<", "F", ">"]:
         fail("%s: the signature is `%s`, the translation is configured for `%s`" % (where, " ".join(tv[:ib]), DB_APPLY_SIG))
     pp = P(toks[ib:], feats, where)
     pp.keep_try = True
     body = pp.block()
     if pp.i != len(toks) - ib or pp.dropped or pp.kept:
         fail("%s: tokens after the body / `#[cfg]` statements" % where)
+    body = rename_params(body, [g for _w, g in pairs], [w for w, _g in pairs], where)       # `func` under its configured name
     if body[2] != ("call", ["Ok"], [("tuple", [])]):
         fail("%s: the body does not end with `Ok(())`" % where)
     lines, kinds = [], []
@@ -5544,7 +6145,8 @@ def emit_dbsync(repo, feats, methods):
             fail("%s: statement %d is not a block of the shape %s" % (where, n + 1, DB_SUBSET))
         l, f = blk[1]
         m = re.match(r"^db_([a-z0-9]+)_map$", l[3][1][1][1][2]) if (
-            l[0] == "let" and l[1][0] == "pvar" and l[2] == "Vec<_>" and l[3][0] == "mcall" and l[3][2] == "collect" and not l[3][3]
+            l[0] == "let" and l[1][0] == "pvar" and l[2] in ("Vec<_>", "Vec<String>") and l[3][0] == "mcall" and l[3][2] == "collect"
+            and not l[3][3]
             and l[3][1][0] == "mcall" and l[3][1][2] == "cloned" and not l[3][1][3]
             and l[3][1][1][0] == "mcall" and l[3][1][1][2] == "keys" and not l[3][1][1][3]
             and l[3][1][1][1][0] == "field" and l[3][1][1][1][1] == ("path", ["self"])) else None
@@ -5580,12 +6182,12 @@ def emit_dbsync(repo, feats, methods):
     if kinds != [x[0] for x in DB_KINDS]:
         fail("%s: the blocks visit the registries %s, the translation (and the hand model Abyss/DbSync.lean) is configured for the "
              "order %s" % (where, kinds, [x[0] for x in DB_KINDS]))
-    texts.append("/-- %s `%s`, `fn applay_all` (`func: F`, `F: Fn(&mut dyn DbXxxBase) -> Result<()>`, is `func : MapAct μ`): five blocks in "
+    texts.append("/-- %s `%s`, `fn applay_all`%s (`func: F`, `F: Fn(&mut dyn DbXxxBase) -> Result<()>`, is `func : MapAct μ`): five blocks in "
                  "the order bytes, string, i64, u64, vu64 (pinned), each `let keys: Vec<_> = self.db_<k>_map.keys().cloned().collect();` "
                  "(`DbRegM.keys .<k>`: the names in the order of the `BTreeMap`, ascending) and the loop over them; the first `Err` of "
                  "`func` is the value (the maps visited before keep what `func` did to them, the failing one too, the others are not "
                  "visited) -/\ndef dbApplyAll {μ : Type} (func : MapAct μ) : DbRegM μ Unit := do\n%s\n"
-                 % (IO_MOD, DB_IMPL, "\n".join(ind(lines + ["pure ()"]))))
+                 % (IO_MOD, DB_IMPL, ALIASES.note("inner", "applay_all"), "\n".join(ind(lines + ["pure ()"]))))
     # ---- `sync_all`, `sync_data`
     acts = dict(FL_FUNCS)
     for rust, lean in (("sync_all", "dbSyncAll"), ("sync_data", "dbSyncData")):
@@ -5603,7 +6205,8 @@ def emit_dbsync(repo, feats, methods):
         if pp.i != len(toks) - ib or pp.dropped or pp.kept:
             fail("%s: tokens after the body / `#[cfg]` statements" % where)
         t = body[2]
-        if not (not body[1] and t is not None and t[0] == "mcall" and t[1] == ("path", ["self"]) and t[2] == "applay_all"
+        if not (not body[1] and t is not None and t[0] == "mcall" and t[1] == ("path", ["self"])
+                and ALIASES.src_to_cfg("inner", t[2]) == "applay_all"
                 and len(t[3]) == 1 and t[3][0][0] == "closure" and len(t[3][0][1]) == 1 and t[3][0][1][0][0] == "pvar"
                 and t[3][0][2][0] == "mcall" and t[3][0][2][1] == ("path", [t[3][0][1][0][1]]) and not t[3][0][2][3]
                 and t[3][0][2][2] in acts):
@@ -5652,6 +6255,9 @@ REG_PINS = [
      "fn open<P: AsRef<Path>>(path: P, ks_name: &str, params: FileDbParams,) -> Result<FileDbMap<KT>> { "
      "Ok(Self(Rc::new(RefCell::new(FileDbXxxInner::<KT>::open_with_params(path, ks_name, params)?,)))) }"),
 ]
+# signatures of the registry functions that are not `pub` (to find one that the source has renamed)
+REG_ALIAS_SIGS = dict((r, "(&mut self, name: &str, params: FileDbParams) -> Result<()>")
+                      for r in ("create_db_map", "create_db_map_bytes", "create_db_map_dbi64", "create_db_map_dbu64", "create_db_map_dbvu64"))
 REG_BUFSIZE_ENUM = "#[derive(Debug, Clone)] pub enum FileBufSizeParam { Size(u32), PerMille(u16), Auto, }"
 REG_ENUMS = {"FileBufSizeParam": {"Size": ("size", 32), "PerMille": ("perMille", 16), "Auto": ("auto", None)},
              "HashBucketsParam": {"BucketsSize": ("bucketsSize", 64), "Capacity": ("capacity", 64), "Default": ("default", None)}}
@@ -5834,7 +6440,7 @@ class EmitReg:
             else:
                 self.bad("`%s`: the receiver `%s` is not `self` / `RefCell::borrow(&self.0)` / `RefCell::borrow_mut(&self.0)` / a "
                          "registry `self.db_<k>_map`" % (rs_show(e), rs_show(recv)))
-            g = self.table.get((owner, m))
+            g = self.table.get((owner, ALIASES.src_to_cfg(owner, m)))
             if g is None:
                 self.bad("`%s`: `%s` is not a translated method of `%s`" % (rs_show(e), m, "FileDbInner" if owner == "inner" else "FileDb"))
             if g.recv == "&mut self" and (borrow == "borrow" or (borrow is None and f.recv != "&mut self")):
@@ -5863,6 +6469,17 @@ class EmitReg:
             return ["pure %s" % t]
         if e[0] == "panicx":
             return ["DbRegM.panic"]
+        if (e[0] == "iflet" and e[4] is not None and e[1][0] == "pctor" and e[1][1] == "Some" and len(e[1][2]) == 1
+                and e[1][2][0][0] == "pvar"):
+            # `if let Some(m) = e { a } else { b }` is `match e { Some(m) => a, None => b }`
+            arms = []
+            for blk in (e[3], e[4]):
+                if not blk[1] and blk[2] is not None:
+                    arms.append(blk[2])
+                elif blk[1] == [("panic",)] and blk[2] is None:
+                    arms.append(("panicx",))
+            if len(arms) == 2:
+                e = ("match", e[2], [(["Some"], e[1][2][0][1], arms[0]), (["None"], None, arms[1])])
         if e[0] == "match":
             t, ty = self.action(e[1], env)
             if ty[0] != "opt":
@@ -5946,7 +6563,7 @@ class EmitReg:
 
 def reg_translate(repo, feats, methods, owner, rel, header, rust, lean, table):
     where = "%s::<%s>::%s" % (rel, header, rust)
-    cands = methods[(rel, header)].get(rust, [])
+    cands = methods[(rel, header)].get(ALIASES.new_of.get((owner, rust), rust), [])
     if len(cands) != 1:
         fail("%s: %d definitions with a true `#[cfg]` (exactly one expected)" % (where, len(cands)))
     toks, blockdesc = cands[0]
@@ -5964,6 +6581,12 @@ def reg_translate(repo, feats, methods, owner, rel, header, rust, lean, table):
     body = pp.block()
     if pp.i != len(toks) - ib or pp.dropped or pp.kept:
         fail("%s: tokens after the body / `#[cfg]` statements" % where)
+    # the parameters under their configured names (`name`, then `child` / `params`: those of the Lean definition)
+    canon = ["name"] + [{"params": "params", ("handle",): "child"}.get(t if isinstance(t, str) else t[:1])
+                        for _n, t in f.params[1:]]
+    if 1 <= len(f.params) <= 2 and f.params[0][1] == "name" and None not in canon:
+        body = rename_params(body, [n for n, _t in f.params], canon, where)
+        f.params = [(c, t) for c, (_n, t) in zip(canon, f.params)]
     em = EmitReg(f, table)
     lines = em.seq(body[1], body[2], dict(f.params))
     f.opener = em.opener
@@ -5971,9 +6594,9 @@ def reg_translate(repo, feats, methods, owner, rel, header, rust, lean, table):
     src = " ".join(v for _k, v in toks)
     src = re.sub(r" ([,;.)?\]:>])", r"\1", re.sub(r"([(.&\[!<]) ", r"\1", src.replace(" :: ", "::"))).replace(" (", "(").replace(" <", "<")
     src = src.replace("->Result", "-> Result").replace("->Option", "-> Option").replace(",)", ")")
-    f.text = ("/-- %s %s, `%s` -/\ndef %s {μ : Type}%s%s : DbRegM μ (%s) := do\n%s\n"
-              % (rel, blockdesc, src, lean, " (opener : Opener FileDbParams μ)" if f.opener else "", sig, reg_lean_ty(f.ret),
-                 "\n".join(ind(lines))))
+    f.text = ("/-- %s %s, `%s`%s -/\ndef %s {μ : Type}%s%s : DbRegM μ (%s) := do\n%s\n"
+              % (rel, blockdesc, src, ALIASES.note(owner, rust), lean, " (opener : Opener FileDbParams μ)" if f.opener else "", sig,
+                 reg_lean_ty(f.ret), "\n".join(ind(lines))))
     f.text = f.text.replace("(Unit)", "Unit").replace(": DbRegM μ (μ)", ": DbRegM μ μ")
     return f
 
@@ -6036,9 +6659,17 @@ def emit_registry(repo, feats, out, done, methods):
     for rel, header, name, want in REG_PINS:
         fl_pin_method(repo, feats, methods, rel, header, name, want)
     methods[(IO_MOD_RS, REG_DB_IMPL)] = io_find_methods(repo, feats, IO_MOD_RS, REG_DB_IMPL)
-    for rel, header, funcs, other, what in ((IO_MOD, DB_IMPL, REG_INNER_FUNCS, REG_INNER_OTHER, "FileDbInner"),
-                                            (IO_MOD_RS, REG_DB_IMPL, REG_DB_FUNCS, REG_DB_OTHER, "FileDb")):
-        have, want = sorted(methods[(rel, header)]), sorted([r for r, _l in funcs] + list(other))
+    # a function that is not `pub` (the `create_db_map*`) under another name: the one other function with its signature
+    for rust, _lean in REG_INNER_FUNCS:
+        if rust not in methods[(IO_MOD, DB_IMPL)] and rust in REG_ALIAS_SIGS:
+            io_find_renamed(methods[(IO_MOD, DB_IMPL)], "inner", rust, io_strip_tc([v for _k, v in tokenize(REG_ALIAS_SIGS[rust])]),
+                            set(r for r, _l in REG_INNER_FUNCS) | set(REG_INNER_OTHER) | set(ALIASES.new_of.get(k_) for k_ in ALIASES.new_of),
+                            "%s::<%s>::%s" % (IO_MOD, DB_IMPL, rust),
+                            "%s::<%s>::%s: 0 definitions with a true `#[cfg]` (exactly one expected)" % (IO_MOD, DB_IMPL, rust))
+    for rel, header, funcs, other, what, own in ((IO_MOD, DB_IMPL, REG_INNER_FUNCS, REG_INNER_OTHER, "FileDbInner", "inner"),
+                                                 (IO_MOD_RS, REG_DB_IMPL, REG_DB_FUNCS, REG_DB_OTHER, "FileDb", "db")):
+        have = sorted(ALIASES.old_of.get((own, m_), m_) for m_ in methods[(rel, header)])
+        want = sorted([r for r, _l in funcs] + list(other))
         if have != want:
             fail("%s::<%s>: the methods are %s, the translation is configured for %s (a method that is not listed may change the "
                  "registries of `%s`: not translated: %s)" % (rel, header, have, want, what, sorted(set(have) ^ set(want))))
@@ -6367,6 +6998,12 @@ API_FUNCS = [("get", "apiGet"), ("put", "apiPut"), ("delete", "apiDelete"), ("in
              ("get_string", "apiGetString"), ("put_string", "apiPutString"), ("delete_string", "apiDeleteString"),
              ("bulk_get_string", "apiBulkGetString"), ("bulk_put_string", "apiBulkPutString"),
              ("bulk_delete_string", "apiBulkDeleteString")]
+# the configured names of their parameters (the Lean parameters are called after them; a parameter that the source calls
+# otherwise is renamed, in the body too)
+API_PNAMES = {"get": ["key"], "put": ["key", "value"], "delete": ["key"], "includes_key": ["key"], "bulk_get": ["bulk_keys"],
+              "bulk_put": ["bulk"], "bulk_delete": ["bulk_keys"], "put_from_iter": ["iter"], "get_string": ["key"],
+              "put_string": ["key", "value"], "delete_string": ["key"], "bulk_get_string": ["bulk_keys"],
+              "bulk_put_string": ["bulk"], "bulk_delete_string": ["bulk_keys"]}
 # function parameters of the generated functions, in this order after `ops`
 API_EXTRA = [("sortDesc", "List (Nat × List Nat) → List (Nat × List Nat)"),
              ("sortDescPairs", "List (List Nat × List Nat) → List (List Nat × List Nat)"),
@@ -6967,7 +7604,7 @@ def emit_apiops(repo, feats, out, methods):
         fail("%s::<%s>: the methods are %s, the translation is configured for %s" % (API_LIB, API_OBJSAFE, sorted(decl), sorted(API_PRIMS)))
     for name, (_fld, want, _p, _r) in API_PRIMS.items():
         got = [v for _k, v in decl[name][0][0]] if len(decl[name]) == 1 else None
-        if got != [v for _k, v in tokenize(want)]:
+        if got is None or toks_eq_renamed(got, [v for _k, v in tokenize(want)]) is None:     # (up to the names of the parameters)
             fail("%s::<%s>::%s is `%s`, the translation is configured for `%s`" % (API_LIB, API_OBJSAFE, name, " ".join(got or ["?"]), want))
     io_pin_tokens(repo, API_DBMAP, "impl<KT: DbMapKeyType> DbXxx<KT> for FileDbMap<KT>",
                   "impl<KT: DbMapKeyType> DbXxx<KT> for FileDbMap<KT> {}",
@@ -6997,6 +7634,9 @@ def emit_apiops(repo, feats, out, methods):
         body = pp.block()
         if pp.i != len(toks) - ib or pp.dropped or pp.kept:
             fail("%s: tokens after the body / `#[cfg]` statements" % where)
+        if len(API_PNAMES[rust]) == len(params):
+            body = rename_params(body, [n for n, _t in params], API_PNAMES[rust], where)      # the parameters under their configured names
+            params = [(c, t) for c, (_n, t) in zip(API_PNAMES[rust], params)]
         em = EmitApi(rust, lean, where, "%s %s" % (API_LIB, blockdesc), params, rty, sigs)
         ts, extra = em.function(body)
         texts += ts
@@ -7052,6 +7692,14 @@ def main():
     repo, out = sys.argv[1], sys.argv[2]
     feats = default_features(repo)
     os.makedirs(out, exist_ok=True)
+    for d, _ds, fs in sorted(os.walk(os.path.join(repo, "src"))):
+        for f in sorted(fs):
+            if f.endswith(".rs"):
+                try:
+                    SRC_TOKENS[os.path.relpath(os.path.join(d, f), repo)] = [
+                        v for _k, v in tokenize(strip_comments(open(os.path.join(d, f)).read()))]
+                except TrError:
+                    pass                                   # (a file outside the translated set that the tokenizer cannot read)
     K = "src/filedb/inner/key.rs"
     V = "src/filedb/inner/val.rs"
     H = "src/filedb/inner/htx.rs"
@@ -7108,39 +7756,49 @@ def main():
         item = "`%s`" % rust if not kw.get("impl") else "`impl %s`, `fn %s`" % (kw["impl"], rust)
         partial, term, notes = translate_fn(repo, feats, rel, rust, lean, params, kw.pop("subst", {}),
                                             kw.pop("consts", {}), kw.pop("partial_fns", {}), **kw)
-        F.append((lean, sig, partial, term, "%s %s" % (rel, item), notes))
+        F.append((lean, sig, partial, term, "%s %s%s" % (rel, item, ALIASES.note(rel, rust)), notes))
         return partial
 
-    fn("xorshift64s", L, "_xorshift64s", [("a", "u64")], "(a : Nat) : Nat")
+    fn("xorshift64s", L, "_xorshift64s", [("a", "u64")], "(a : Nat) : Nat", pnames=["a"], alias_sig="(a: u64) -> u64")
     # MyHasher::write(&mut self, bytes): the state `self.0` becomes parameter/result `h`
     fn("hasherWrite", L, "write", [("h", "u64")], "(h : Nat) (bytes : List Nat) : Nat",
        state_vars={"self.0": "h"}, pure_fns={"_xorshift64s": "xorshift64s"}, default_int="u64", result="h",
-       var_types={"b": "u8"})
+       var_types={"b": "u8"}, pnames=["bytes"])
     arrays = {"self.size_ary": "sizeAry", "self.free_list_offset": "freeListOffset"}
     sub_ps = {"piece_size.as_value()": ("pieceSize0", "u32"), "need_size.as_value()": ("needSize0", "u32")}
     fn("roundup", PI, "roundup", [("piece_size", "u32")], "(sizeAry : List Nat) (pieceSize0 : Nat) : Nat",
-       self_arrays=arrays, subst=sub_ps)
+       self_arrays=arrays, subst=sub_ps, pnames=["piece_size"])
     fn("isLargePieceSize", PI, "is_large_piece_size", [("piece_size", "u32")],
-       "(sizeAry : List Nat) (pieceSize0 : Nat) : Bool", self_arrays=arrays, subst=sub_ps)
+       "(sizeAry : List Nat) (pieceSize0 : Nat) : Bool", self_arrays=arrays, subst=sub_ps, pnames=["piece_size"])
     fn("freePieceListOffsetOfHeader", PI, "free_piece_list_offset_of_header", [("piece_size", "u32")],
-       "(freeListOffset sizeAry : List Nat) (pieceSize0 : Nat) : Nat", self_arrays=arrays, subst=sub_ps)
+       "(freeListOffset sizeAry : List Nat) (pieceSize0 : Nat) : Nat", self_arrays=arrays, subst=sub_ps, pnames=["piece_size"])
     # value: (encorded_piece_len, piece_len, value_len)
     fn("valueEncodedPieceSize", V, "encoded_piece_size", [], "(valueLen : Nat) : Nat × Nat × Nat",
        subst={"self.value.len()": ("valueLen", "usize")})
     fn("keyEncodedPieceSize", K, "encoded_piece_size", [],
        "(keyLen valueOffset bucketNextOffset : Nat) : Nat × Nat × Nat",
-       subst={"key.len()": ("keyLen", "usize"), "self.key.as_bytes()": (None, None),
+       subst={"self.key.as_bytes().len()": ("keyLen", "usize"), "self.key.as_bytes()": (None, None),   # `let key = self.key.as_bytes();`
               "self.value_offset.as_value()": ("valueOffset", "u64"),
               "self.bucket_next_offset.as_value()": ("bucketNextOffset", "u64")})
-    part = fn("capacityToBucketsSize", H, "capacity_to_buckets_size", [("cap", "u64")], "(cap : Nat) : Option Nat")
+    part = fn("capacityToBucketsSize", H, "capacity_to_buckets_size", [("cap", "u64")], "(cap : Nat) : Option Nat",
+              pnames=["cap"], alias_sig="(cap: u64) -> u64")
     if not part:
         fail(H + "::capacity_to_buckets_size: expected a panic for capacity 0")
+    # `HtxFile::open_with_params`: the statement `let buckets_size = match params.buckets_size { … };`, found by its right-hand
+    # side (`params`: the parameter of type `&FileDbParams`, whatever the source calls it and the local)
+    hp = [n for c_ in io_find_methods(repo, feats, H, "impl HtxFile").get("open_with_params", [])
+          for n, t in sig_param_types(io_sig_toks(c_[0]), None) if t == "&FileDbParams"]
+    hp = hp[0] if len(hp) == 1 else "params"
+    picked = {}
     fn("bucketsOf", H, "open_with_params", [], "(p : HashBucketsParam) : Option Nat",
-       subst={"params.buckets_size": ("p", None)}, consts={"DEFAULT_HT_SIZE": "defaultHtSize"},
-       partial_fns={"capacity_to_buckets_size": "capacityToBucketsSize"}, pick_let="buckets_size")
+       subst={hp + ".buckets_size": ("p", None)}, consts={"DEFAULT_HT_SIZE": "defaultHtSize"},
+       partial_fns={"capacity_to_buckets_size": "capacityToBucketsSize"},
+       pick_let=("rhs", ["match", hp, ".", "buckets_size"]), picked=picked)
     # htx file length at creation: `let off = NodePieceOffset::new(HTX_HEADER_SZ + buckets_size * 8 + buckets_size / 8);`
+    # (found by its right-hand side; `buckets_size`: the local bound by the statement above)
     fn("htxInitLen", H, "open_with_params", [("buckets_size", "u64")], "(bucketsSize : Nat) : Nat",
-       consts={"HTX_HEADER_SZ": "htxHeaderSz"}, pick_let="off")
+       consts={"HTX_HEADER_SZ": "htxHeaderSz"}, pick_let=("rhs", ["NodePieceOffset", "::", "new", "(", "HTX_HEADER_SZ"]),
+       rename={picked.get("var", "buckets_size"): "buckets_size"})
 
     # ---- key types: stored-key comparison and integer <-> key conversions
     # (src/filedb/dbmap/kt_db*.rs; a key newtype `DbX(Vec<u8>)` is its byte list)
@@ -7219,6 +7877,8 @@ def main():
     n_api = emit_apiops(repo, feats, out, methods)
     STAGE = "registry"
     n_reg = emit_registry(repo, feats, out, done, methods)
+    STAGE = "funcs"                                        # (a failure here: none of the files is the translation of this source)
+    check_aliases()
     print("rs2lean: wrote %d constants, %d functions, %d file operations, %d engine functions, %d flush definitions, "
           "%d API definitions, %d registry definitions (features: %s)"
           % (len(C), len(F), n_io, n_eng, n_fl, n_api, n_reg, ",".join(sorted(feats))))
@@ -7226,7 +7886,11 @@ def main():
 
 if __name__ == "__main__":
     try:
-        main()
+        try:
+            main()
+        except (IndexError, KeyError, TypeError, ValueError, AttributeError, AssertionError) as e:
+            # a source so far from the configured shapes that a check itself breaks: outside the supported subset
+            raise TrError("internal error while reading the source (%s: %s)" % (type(e).__name__, e))
     except TrError as e:
         print("rs2lean: UNSUPPORTED: %s" % e, file=sys.stderr)
         # nothing was emitted; a Funcs.lean left over from an earlier run must not be mistaken for
